@@ -382,25 +382,141 @@ Proof.
   destruct (name_inj _ _ _ _ Hc Hc' He) as [-> He']. destruct (lsfx_inj _ _ _ _ Hl Hl' He') as [-> ->]. auto.
 Qed.
 
-(* an entry of the model's register table, as the fragment creates it *)
-Definition entry_ok (n : string) (ri : reginfo) : Prop :=
+(* ------------------------------------------------------------------ register ALIAS operands (HEX_REG_ALIAS_USR ...) *)
+(* the aliases of the fragment: the named registers of the ISA except the program counter (reads of HEX_REG_ALIAS_PC are
+   emitted as the packet address and a write names an undeclared handle: outside the fragment) *)
+Definition alias_names : list string :=
+  ["USR"; "SP"; "LR"; "GP"; "FP"; "LC0"; "LC1"; "SA0"; "SA1"; "M0"; "M1"; "CS0"; "CS1"; "UPCYCLE"; "PKTCOUNT"; "UTIMER"; "UGP"].
+(* the name under which Lower.lower_operand registers the alias, its operand handle, its width *)
+Definition alias_tname (name : string) (new : bool) : string := lower_ascii name +++ sfx new.
+Definition alias_op (name : string) (new : bool) : regop := RAlias ("HEX_REG_ALIAS_" +++ name) new.
+Definition alias_w (name : string) : N := alias_width name.
+
+Definition alias_all : list (string * bool) := flat_map (fun a => [(a, true); (a, false)]) alias_names.
+Definition isa_all : list (string * (string * bool)) :=
+  flat_map (fun c => map (fun lb => (c, lb)) lsfx_all) ["R"; "P"; "C"; "M"; "N"].
+Lemma alias_check :
+  forallb (fun a => forallb (fun b => implb (String.eqb (alias_tname (fst a) (snd a)) (alias_tname (fst b) (snd b)))
+                                            (String.eqb (fst a) (fst b) && Bool.eqb (snd a) (snd b))) alias_all) alias_all = true /\
+  forallb (fun a => forallb (fun i => negb (String.eqb (alias_tname (fst a) (snd a)) (rname (fst i) (fst (snd i)) (snd (snd i))))) isa_all) alias_all = true /\
+  forallb (fun a => N.eqb (if existsb (String.eqb (lower_ascii a)) ["upcycle"; "pktcount"; "utimer"] then 64 else 32) (alias_w a) &&
+                    negb (String.eqb (lower_ascii a) "pc") && (N.eqb (alias_w a) 32 || N.eqb (alias_w a) 64))%bool alias_names = true.
+Proof. repeat split; vm_compute; reflexivity. Qed.
+(* the program counter alias is registered under the name "pc": no other operand of the fragment has that name *)
+Lemma pc_name_check :
+  forallb (fun a => negb (String.eqb (alias_tname (fst a) (snd a)) "pc")) alias_all = true /\
+  forallb (fun i => negb (String.eqb (rname (fst i) (fst (snd i)) (snd (snd i))) "pc")) isa_all = true.
+Proof. split; vm_compute; reflexivity. Qed.
+Definition pc_op : regop := RAlias "HEX_REG_ALIAS_PC" false.
+
+Lemma alias_in_all name new : In name alias_names -> In (name, new) alias_all.
+Proof. intros H. unfold alias_all. apply in_flat_map. exists name. split; [exact H|]. destruct new; cbn; auto. Qed.
+
+Lemma alias_tname_inj name name' new new' : In name alias_names -> In name' alias_names ->
+  alias_tname name new = alias_tname name' new' -> name = name' /\ new = new'.
+Proof.
+  intros H H' He. pose proof (proj1 alias_check) as Hc. rewrite forallb_forall in Hc. specialize (Hc _ (alias_in_all name new H)).
+  rewrite forallb_forall in Hc. specialize (Hc _ (alias_in_all name' new' H')). cbn [fst snd] in Hc.
+  rewrite He, String.eqb_refl in Hc. cbn [implb] in Hc. apply andb_true_iff in Hc. destruct Hc as [H1 H2].
+  apply String.eqb_eq in H1. apply eqb_prop in H2. auto.
+Qed.
+
+Lemma alias_isa_neq name new cls letters new' : In name alias_names -> any_cls cls -> In letters letter_table ->
+  alias_tname name new <> rname cls letters new'.
+Proof.
+  intros H Hc Hl He. pose proof (proj1 (proj2 alias_check)) as Hk. rewrite forallb_forall in Hk. specialize (Hk _ (alias_in_all name new H)).
+  rewrite forallb_forall in Hk.
+  assert (Hin : In (cls, (letters, new')) isa_all).
+  { unfold isa_all. apply in_flat_map. exists cls. split.
+    - unfold any_cls in Hc. cbn. intuition.
+    - apply in_map. unfold lsfx_all. apply in_flat_map. exists letters. split; [exact Hl|]. destruct new'; cbn; auto. }
+  specialize (Hk _ Hin). cbn [fst snd] in Hk. rewrite He, String.eqb_refl in Hk. discriminate Hk.
+Qed.
+
+Lemma in_isa_all cls letters new : any_cls cls -> In letters letter_table -> In (cls, (letters, new)) isa_all.
+Proof.
+  intros Hc Hl. unfold isa_all. apply in_flat_map. exists cls. split.
+  - unfold any_cls in Hc. cbn. intuition.
+  - apply in_map. unfold lsfx_all. apply in_flat_map. exists letters. split; [exact Hl|]. destruct new; cbn; auto.
+Qed.
+Lemma alias_not_pcname name new : In name alias_names -> alias_tname name new <> "pc".
+Proof.
+  intros H He. pose proof (proj1 pc_name_check) as Hk. rewrite forallb_forall in Hk. specialize (Hk _ (alias_in_all name new H)).
+  cbn [fst snd] in Hk. rewrite He in Hk. discriminate Hk.
+Qed.
+Lemma isa_not_pcname cls letters new : any_cls cls -> In letters letter_table -> rname cls letters new <> "pc".
+Proof.
+  intros Hc Hl He. pose proof (proj2 pc_name_check) as Hk. rewrite forallb_forall in Hk. specialize (Hk _ (in_isa_all cls letters new Hc Hl)).
+  cbn [fst snd] in Hk. rewrite He in Hk. discriminate Hk.
+Qed.
+
+Lemma alias_facts name : In name alias_names ->
+  (if existsb (String.eqb (lower_ascii name)) ["upcycle"; "pktcount"; "utimer"] then 64%N else 32%N) = alias_w name /\
+  String.eqb (lower_ascii name) "pc" = false /\ okw (alias_w name).
+Proof.
+  intros H. pose proof (proj2 (proj2 alias_check)) as Hk. rewrite forallb_forall in Hk. specialize (Hk _ H).
+  apply andb_true_iff in Hk. destruct Hk as [Hk H3]. apply andb_true_iff in Hk. destruct Hk as [H1 H2].
+  apply N.eqb_eq in H1. apply negb_true_iff in H2. split; [exact H1|]. split; [exact H2|].
+  apply orb_true_iff in H3. unfold okw. destruct H3 as [H3 | H3]; apply N.eqb_eq in H3; auto.
+Qed.
+
+(* an entry of the model's register table, as the fragment creates it: for an ISA operand, or for an alias *)
+Definition isa_entry (n : string) (ri : reginfo) : Prop :=
   exists cls letters acc new, reg_cls new cls /\ access_of_letters letters = Some acc /\ n = rname cls letters new /\
     r_op ri = rop cls letters new /\ r_ty ri = ty_int true (dest_w cls acc) /\ r_pc ri = false /\ r_new ri = new /\
     write_only (r_acc ri) = write_only acc /\ r_acc ri <> AUnknown.
+Definition alias_entry (n : string) (ri : reginfo) : Prop :=
+  exists name new, In name alias_names /\ n = alias_tname name new /\ r_op ri = alias_op name new /\
+    r_ty ri = ty_int false (alias_w name) /\ r_pc ri = false /\ r_new ri = new.
+(* the program counter alias, read only: its reads are emitted as the packet address as long as it is not written *)
+Definition pc_entry (n : string) (ri : reginfo) : Prop :=
+  n = "pc" /\ r_op ri = pc_op /\ r_ty ri = ty_int false 32 /\ r_pc ri = true /\ r_new ri = false /\ r_acc ri = AUnknown.
+Definition entry_ok (n : string) (ri : reginfo) : Prop := isa_entry n ri \/ alias_entry n ri \/ pc_entry n ri.
+(* which kind an entry is, is decided by its name *)
+Lemma entry_isa n ri cls letters new : entry_ok n ri -> any_cls cls -> In letters letter_table -> n = rname cls letters new -> isa_entry n ri.
+Proof.
+  intros [H | [[nm [nw [Hin [Hn _]]]] | [Hn _]]] Hc Hl He; [exact H | exfalso | exfalso].
+  - rewrite He in Hn. exact (alias_isa_neq nm nw cls letters new Hin Hc Hl (eq_sym Hn)).
+  - rewrite He in Hn. exact (isa_not_pcname cls letters new Hc Hl Hn).
+Qed.
+Lemma entry_alias n ri name new : entry_ok n ri -> In name alias_names -> n = alias_tname name new -> alias_entry n ri.
+Proof.
+  intros [[cls' [l' [acc' [new' [Hc' [Ha' [Hn _]]]]]]] | [H | [Hn _]]] Hin He; [exfalso | exact H | exfalso].
+  - rewrite He in Hn. exact (alias_isa_neq name new cls' l' new' Hin (reg_cls_any _ _ Hc') (access_in_table _ _ Ha') Hn).
+  - rewrite He in Hn. exact (alias_not_pcname name new Hin Hn).
+Qed.
+Lemma entry_pc n ri : entry_ok n ri -> n = "pc" -> pc_entry n ri.
+Proof.
+  intros [[cls' [l' [acc' [new' [Hc' [Ha' [Hn _]]]]]]] | [[nm [nw [Hin [Hn _]]]] | H]] He; [exfalso | exfalso | exact H].
+  - rewrite He in Hn. exact (isa_not_pcname cls' l' new' (reg_cls_any _ _ Hc') (access_in_table _ _ Ha') (eq_sym Hn)).
+  - rewrite He in Hn. exact (alias_not_pcname nm nw Hin (eq_sym Hn)).
+Qed.
+
 Definition regs_ok (regs : list (string * reginfo)) : Prop :=
   forall n ri, lookup_reg_info n regs = Some ri -> entry_ok n ri.
-(* a later table: what finalisation (Lower.reg_read / reg_handle) looks at is unchanged *)
+(* a later table: what finalisation (Lower.reg_read / reg_handle) looks at is unchanged, except that an entry whose
+   access kind is still unknown (an alias that has not been written yet) may become a written one *)
+Definition acc_le (pc : bool) (a a' : access) : Prop :=
+  (pc = false /\ a = AUnknown) \/ (write_only a' = write_only a /\ (a <> AUnknown -> a' <> AUnknown)).
 Definition regs_le (regs regs' : list (string * reginfo)) : Prop :=
   forall n ri, lookup_reg_info n regs = Some ri ->
     exists ri', lookup_reg_info n regs' = Some ri' /\ r_op ri' = r_op ri /\ r_pc ri' = r_pc ri /\ r_new ri' = r_new ri /\
-                write_only (r_acc ri') = write_only (r_acc ri).
+                acc_le (r_pc ri) (r_acc ri) (r_acc ri').
 
+Lemma acc_le_refl pc a : acc_le pc a a.
+Proof. unfold acc_le. right. auto. Qed.
+Lemma acc_le_trans pc a b c : acc_le pc a b -> acc_le pc b c -> acc_le pc a c.
+Proof.
+  unfold acc_le. intros [H1 | [W1 H1]] H2; [left; exact H1|]. destruct H2 as [[Hp H2] | [W2 H2]].
+  - left. split; [exact Hp|]. destruct a; try reflexivity; exfalso; apply H1; try discriminate; exact H2.
+  - right. split; [congruence | auto].
+Qed.
 Lemma regs_le_refl r : regs_le r r.
-Proof. intros n ri H. exists ri. auto. Qed.
+Proof. intros n ri H. exists ri. auto using acc_le_refl. Qed.
 Lemma regs_le_trans a b c : regs_le a b -> regs_le b c -> regs_le a c.
 Proof.
   intros H1 H2 n ri H. destruct (H1 n ri H) as [ri1 [L1 [O1 [P1 [N1 W1]]]]]. destruct (H2 n ri1 L1) as [ri2 [L2 [O2 [P2 [N2 W2]]]]].
-  exists ri2. split; [exact L2|]. repeat split; congruence.
+  exists ri2. split; [exact L2|]. split; [congruence|]. split; [congruence|]. split; [congruence|]. rewrite P1 in W2. eapply acc_le_trans; eassumption.
 Qed.
 Lemma regs_ok_nil : regs_ok [].
 Proof. intros n ri H. discriminate H. Qed.
@@ -461,7 +577,9 @@ Proof.
   unfold add_reg, bind, get.
   destruct (lookup_reg_info (rname cls letters new) (st_regs st)) as [old|] eqn:El.
   - exists st. split.
-    { unfold ret, reg_value. destruct (Hr _ _ El) as [cls' [l' [acc' [new' [Hc' [Ha' [Hn [_ [Ht _]]]]]]]]].
+    { unfold ret, reg_value.
+      destruct (entry_isa _ _ cls letters new (Hr _ _ El) (reg_cls_any _ _ Hc) (access_in_table _ _ Ha) eq_refl)
+        as [cls' [l' [acc' [new' [Hc' [Ha' [Hn [_ [Ht _]]]]]]]]].
       destruct (rname_inj _ _ _ _ _ _ (reg_cls_any _ _ Hc) (reg_cls_any _ _ Hc') (access_in_table _ _ Ha) (access_in_table _ _ Ha') Hn)
         as [<- [<- <-]].
       rewrite Ha in Ha'. injection Ha' as <-. rewrite Ht. reflexivity. }
@@ -472,13 +590,82 @@ Proof.
     split; [reflexivity|]. split; [reflexivity|].
     split.
     { unfold st_ext; cbn [st_pending st_hcount st_imms st_removed st_nonempty st_regs].
-      repeat split; auto using incl_refl. intros n ri H. exists ri. rewrite lookup_reg_info_app, H. auto. }
+      repeat split; auto using incl_refl. intros n ri H. exists ri. rewrite lookup_reg_info_app, H. auto using acc_le_refl. }
     split.
     { intros n ri. rewrite lookup_reg_info_app. destruct (lookup_reg_info n (st_regs st)) eqn:Eln.
       - intros H; injection H as <-. exact (Hr _ _ Eln).
       - destruct (String.eqb_spec (rname cls letters new) n) as [<-|_]; [|discriminate].
-        intros H; injection H as <-. exists cls, letters, acc, new. cbn [r_op r_ty r_pc r_new r_acc].
+        intros H; injection H as <-. left. exists cls, letters, acc, new. cbn [r_op r_ty r_pc r_new r_acc].
         destruct (access_write_only _ _ Ha) as [_ Hu]. auto 12. }
+    split; [reflexivity|].
+    rewrite lookup_reg_info_app, El, String.eqb_refl. eauto.
+Qed.
+
+(* reading / naming an alias operand: Lower.lower_operand on OAlias *)
+Lemma lower_alias_ok cfg name new st : In name alias_names -> regs_ok (st_regs st) ->
+  exists st', lower_operand cfg (OAlias name new) st =
+                OK (IPure (mkpv (PRaw ("$reg:" +++ alias_tname name new)) (ty_int false (alias_w name)) (KReg (alias_tname name new)) []), st') /\
+    st_vars st' = st_vars st /\ st_imms st' = st_imms st /\ st_ext st st' /\ regs_ok (st_regs st') /\
+    (started st -> st_nonempty st' = true) /\
+    exists ri, lookup_reg_info (alias_tname name new) (st_regs st') = Some ri.
+Proof.
+  intros Hin Hr. destruct (alias_facts name Hin) as [Hw [Hpc _]].
+  cbn [lower_operand]. cbv zeta. rewrite Hw, Hpc. cbn [andb].
+  change (lower_ascii name +++ (if new then "_new" else "")) with (alias_tname name new).
+  change (RAlias ("HEX_REG_ALIAS_" +++ name) new) with (alias_op name new).
+  unfold add_reg, bind, get.
+  destruct (lookup_reg_info (alias_tname name new) (st_regs st)) as [old|] eqn:El.
+  - exists st. split.
+    { unfold ret, reg_value.
+      destruct (entry_alias _ _ name new (Hr _ _ El) Hin eq_refl) as [nm [nw [Hin' [Hn [_ [Ht _]]]]]].
+      destruct (alias_tname_inj _ _ _ _ Hin Hin' Hn) as [<- <-]. rewrite Ht. reflexivity. }
+    split; [reflexivity|]. split; [reflexivity|]. split; [apply st_ext_refl|]. split; [exact Hr|].
+    split; [|eauto].
+    intros [Hs | [_ Hs]]; [exact Hs|]. rewrite Hs in El. discriminate El.
+  - eexists. split; [reflexivity|]. cbn [st_vars st_regs st_nonempty st_imms].
+    split; [reflexivity|]. split; [reflexivity|].
+    split.
+    { unfold st_ext; cbn [st_pending st_hcount st_imms st_removed st_nonempty st_regs].
+      repeat split; auto using incl_refl. intros n ri H. exists ri. rewrite lookup_reg_info_app, H. auto using acc_le_refl. }
+    split.
+    { intros n ri. rewrite lookup_reg_info_app. destruct (lookup_reg_info n (st_regs st)) eqn:Eln.
+      - intros H; injection H as <-. exact (Hr _ _ Eln).
+      - destruct (String.eqb_spec (alias_tname name new) n) as [<-|_]; [|discriminate].
+        intros H; injection H as <-. right. left. exists name, new. cbn [r_op r_ty r_pc r_new r_acc]. auto 10. }
+    split; [reflexivity|].
+    rewrite lookup_reg_info_app, El, String.eqb_refl. eauto.
+Qed.
+
+(* reading the program counter alias: Lower.lower_operand on OAlias "PC" *)
+Lemma lower_pc_ok cfg st : regs_ok (st_regs st) ->
+  exists st', lower_operand cfg (OAlias "PC" false) st =
+                OK (IPure (mkpv (PRaw ("$reg:" +++ "pc")) (ty_int false 32) (KReg "pc") []), st') /\
+    st_vars st' = st_vars st /\ st_imms st' = st_imms st /\ st_ext st st' /\ regs_ok (st_regs st') /\
+    (started st -> st_nonempty st' = true) /\
+    exists ri, lookup_reg_info "pc" (st_regs st') = Some ri.
+Proof.
+  intros Hr. cbn [lower_operand]. cbv zeta.
+  change (lower_ascii "PC") with "pc".
+  change (if existsb (String.eqb "pc") ["upcycle"; "pktcount"; "utimer"] then 64%N else 32%N) with 32%N.
+  change ("pc" +++ "") with "pc". change (String.eqb "pc" "pc" && negb false) with true.
+  change (RAlias ("HEX_REG_ALIAS_" +++ "PC") false) with pc_op.
+  unfold add_reg, bind, get.
+  destruct (lookup_reg_info "pc" (st_regs st)) as [old|] eqn:El.
+  - exists st. split.
+    { unfold ret, reg_value. destruct (entry_pc _ _ (Hr _ _ El) eq_refl) as [_ [_ [Ht _]]]. rewrite Ht. reflexivity. }
+    split; [reflexivity|]. split; [reflexivity|]. split; [apply st_ext_refl|]. split; [exact Hr|].
+    split; [|eauto].
+    intros [Hs | [_ Hs]]; [exact Hs|]. rewrite Hs in El. discriminate El.
+  - eexists. split; [reflexivity|]. cbn [st_vars st_regs st_nonempty st_imms].
+    split; [reflexivity|]. split; [reflexivity|].
+    split.
+    { unfold st_ext; cbn [st_pending st_hcount st_imms st_removed st_nonempty st_regs].
+      repeat split; auto using incl_refl. intros n ri H. exists ri. rewrite lookup_reg_info_app, H. auto using acc_le_refl. }
+    split.
+    { intros n ri. rewrite lookup_reg_info_app. destruct (lookup_reg_info n (st_regs st)) eqn:Eln.
+      - intros H; injection H as <-. exact (Hr _ _ Eln).
+      - destruct (String.eqb_spec "pc" n) as [<-|_]; [|discriminate].
+        intros H; injection H as <-. right. right. unfold pc_entry. cbn [r_op r_ty r_pc r_new r_acc]. auto 10. }
     split; [reflexivity|].
     rewrite lookup_reg_info_app, El, String.eqb_refl. eauto.
 Qed.
@@ -489,7 +676,7 @@ Definition cval_of (t : vtype) (v : val) : cval :=
 Definition shape (t : vtype) (v : val) : Prop :=
   if vt_bool t then exists b, v = VB b else exists z, v = VBv (vt_w t) z /\ 0 <= z < pow2 (vt_w t).
 Definition intkind (k : kind) : Prop :=
-  match k with KVar _ | KReg _ | KExec | KTmp _ false | KLit _ false => True | _ => False end.
+  match k with KVar _ | KReg _ | KExec | KTmp _ false | KLit _ false | KMacro => True | _ => False end.
 Definition boolkind (k : kind) : Prop :=
   match k with KBoolOp | KLit _ true => True | _ => False end.
 Definition goodpv (p : pval) : Prop :=
@@ -500,8 +687,162 @@ Lemma okw32 : okw 32. Proof. unfold okw; auto. Qed.
 Lemma okw64 : okw 64. Proof. unfold okw; auto. Qed.
 Global Hint Resolve okw32 okw64 : core.
 
+
+(* ------------------------------------------------------------------ the macro table *)
+(* the signatures of QEMU's pure bit-field macros (bitops.h / bswap.h) as the compiler's macro table
+   (Resources/macros.json, gen/Resources.macs0) declares them: RzIL head, return type, parameter types *)
+Definition std_macs : list macsig :=
+  [ mkmac "bswap16" "BSWAP16" (ty_int false 16) [ty_int false 16];
+    mkmac "bswap32" "BSWAP32" (ty_int false 32) [ty_int false 32];
+    mkmac "bswap64" "BSWAP64" (ty_int false 64) [ty_int false 64];
+    mkmac "extract64" "EXTRACT64" (ty_int false 64) [ty_int false 64; ty_int true 32; ty_int true 32];
+    mkmac "sextract64" "SEXTRACT64" (ty_int true 64) [ty_int false 64; ty_int true 32; ty_int true 32];
+    mkmac "deposit64" "DEPOSIT64" (ty_int false 64) [ty_int false 64; ty_int true 32; ty_int true 32; ty_int false 64];
+    mkmac "deposit32" "DEPOSIT32" (ty_int false 32) [ty_int false 32; ty_int true 32; ty_int true 32; ty_int false 32];
+    mkmac "extract32" "EXTRACT32" (ty_int false 32) [ty_int false 32; ty_int true 32; ty_int true 32] ].
+(* a macro table that gives these eight names their standard signature (whatever else it contains) *)
+Definition macs_std (macs : list macsig) : Prop :=
+  forall sg, In sg std_macs -> find (fun s => String.eqb (mac_name s) (mac_name sg)) macs = Some sg.
+Lemma macs_std_self : macs_std std_macs.
+Proof. intros sg H. cbn [std_macs In] in H. repeat (destruct H as [<- | H]; [reflexivity|]). contradiction. Qed.
+
+(* ------------------------------------------------------------------ calls that are not sub-routine calls *)
+(* `sizeof(e)` and the call statement `STORE_SLOT_CANCELLED(a, b)` are written like calls of a sub-routine; the compiler
+   treats them specially only when its sub-routine table (Lower.cfg_subs) does not declare the name, and CSem looks the
+   name up in its own table of sub-routine bodies.  The theorems assume that neither table knows the two names. *)
+Definition ext_calls : list string := ["STORE_SLOT_CANCELLED"; "sizeof"].
+Definition subs_ext (subsigs : list subsig) : Prop :=
+  forall f, In f ext_calls -> find (fun s => String.eqb (sub_name s) f) subsigs = None.
+Definition csub_ext (csub : csubs) : Prop := forall f, In f ext_calls -> csub f = None.
+Lemma subs_ext_nil : subs_ext [].
+Proof. intros f _. reflexivity. Qed.
+Lemma csub_ext_none : csub_ext (fun _ => None).
+Proof. intros f _. reflexivity. Qed.
+
+(* ------------------------------------------------------------------ the model state after `touch` *)
+Definition touched (st : lstate) : lstate :=
+  mkst (st_vars st) (st_regs st) (st_pending st) (st_hcount st) (st_imms st) true (st_removed st).
+Lemma touch_eq st : touch st = OK (tt, touched st).
+Proof. reflexivity. Qed.
+Lemma st_ext_touched st : st_ext st (touched st).
+Proof. unfold st_ext, touched; cbn. repeat split; auto using incl_refl, regs_le_refl. Qed.
+
+(* ------------------------------------------------------------------ memory reads *)
+Lemma read_bytes_rel (E : cenv) cs ms : cs_mem cs = mem ms -> (forall a, ce_mem0 E a = mem0 ms a) ->
+  forall n a, c_read_bytes E cs a n = read_bytes ms a n.
+Proof.
+  intros Hm H0. unfold c_read_bytes. induction n as [|n IH]; intros a; [reflexivity|].
+  cbn [read_bytes]. rewrite <- IH. unfold read_byte. rewrite Hm, H0. reflexivity.
+Qed.
+
+(* ------------------------------------------------------------------ the bit-field macros: C (CSem.c_macro) against the IL (RzIL.app_sem) *)
+Definition i32_t : cty := (true, 32%N).
+Lemma i32_arg c s : conv i32_t c = (i32_t, s) -> 0 <= s < pow2 32 -> 0 <= vint (conv int_t c) -> vint (conv int_t c) = s.
+Proof.
+  change int_t with i32_t. intros -> Hs. unfold vint, i32_t. cbn [fst snd]. intros H. apply interp_nonneg; auto.
+Qed.
+
+Lemma extract_range w x s l : 0 <= extract w x s l < pow2 w.
+Proof. unfold extract. apply wrap_range. Qed.
+
+Lemma mac_extract64 cx cs cl x s l :
+  conv (false, 64%N) cx = ((false, 64%N), x) -> conv i32_t cs = (i32_t, s) -> conv i32_t cl = (i32_t, l) ->
+  0 <= s < pow2 32 -> 0 <= l < pow2 32 ->
+  exists z, app_sem "EXTRACT64" [VBv 64 x; VBv 32 s; VBv 32 l] = Some (VBv 64 z) /\ 0 <= z < pow2 64 /\
+    forall r, c_macro "extract64" [cx; cs; cl] = Some r -> r = ((false, 64%N), z).
+Proof.
+  intros Hx Hs Hl Rs Rl. eexists. split; [reflexivity|]. split; [apply extract_range|].
+  intros r H. cbn [c_macro] in H. rewrite Hx in H. cbn [snd] in H.
+  destruct ((0 <=? vint (conv int_t cs)) && (0 <? vint (conv int_t cl)) && (vint (conv int_t cs) + vint (conv int_t cl) <=? 64)) eqn:Ec; [|discriminate H].
+  rewrite (i32_arg cs s Hs Rs) in H by lia. rewrite (i32_arg cl l Hl Rl) in H by lia.
+  injection H as <-. unfold mkval. cbn [snd]. f_equal. unfold extract. apply wrap_idem.
+Qed.
+
+Lemma mac_extract32 cx cs cl x s l :
+  conv (false, 32%N) cx = ((false, 32%N), x) -> conv i32_t cs = (i32_t, s) -> conv i32_t cl = (i32_t, l) ->
+  0 <= s < pow2 32 -> 0 <= l < pow2 32 ->
+  exists z, app_sem "EXTRACT32" [VBv 32 x; VBv 32 s; VBv 32 l] = Some (VBv 32 z) /\ 0 <= z < pow2 32 /\
+    forall r, c_macro "extract32" [cx; cs; cl] = Some r -> r = ((false, 32%N), z).
+Proof.
+  intros Hx Hs Hl Rs Rl. eexists. split; [reflexivity|]. split; [apply extract_range|].
+  intros r H. cbn [c_macro] in H. rewrite Hx in H. cbn [snd] in H.
+  destruct ((0 <=? vint (conv int_t cs)) && (0 <? vint (conv int_t cl)) && (vint (conv int_t cs) + vint (conv int_t cl) <=? 32)) eqn:Ec; [|discriminate H].
+  rewrite (i32_arg cs s Hs Rs) in H by lia. rewrite (i32_arg cl l Hl Rl) in H by lia.
+  injection H as <-. unfold mkval. cbn [snd]. f_equal. unfold extract. apply wrap_idem.
+Qed.
+
+Lemma mac_sextract64 cx cs cl x s l :
+  conv (false, 64%N) cx = ((false, 64%N), x) -> conv i32_t cs = (i32_t, s) -> conv i32_t cl = (i32_t, l) ->
+  0 <= s < pow2 32 -> 0 <= l < pow2 32 ->
+  exists z, app_sem "SEXTRACT64" [VBv 64 x; VBv 32 s; VBv 32 l] = Some (VBv 64 z) /\ 0 <= z < pow2 64 /\
+    forall r, c_macro "sextract64" [cx; cs; cl] = Some r -> r = ((true, 64%N), z).
+Proof.
+  intros Hx Hs Hl Rs Rl. eexists. split; [reflexivity|]. split; [apply wrap_range|].
+  intros r H. cbn [c_macro] in H. rewrite Hx in H. cbn [snd] in H.
+  destruct ((0 <=? vint (conv int_t cs)) && (0 <? vint (conv int_t cl)) && (vint (conv int_t cs) + vint (conv int_t cl) <=? 64)) eqn:Ec; [|discriminate H].
+  assert (El : vint (conv int_t cl) = l) by (apply (i32_arg cl l Hl Rl); lia).
+  rewrite (i32_arg cs s Hs Rs) in H by lia. rewrite El in *.
+  injection H as <-. unfold mkval. cbn [snd]. f_equal.
+  assert (0 <? l = true) as -> by lia. reflexivity.
+Qed.
+
+Lemma mac_deposit32 cx cs cl cf x s l f :
+  conv (false, 32%N) cx = ((false, 32%N), x) -> conv i32_t cs = (i32_t, s) -> conv i32_t cl = (i32_t, l) ->
+  conv (false, 32%N) cf = ((false, 32%N), f) -> 0 <= s < pow2 32 -> 0 <= l < pow2 32 ->
+  exists z, app_sem "DEPOSIT32" [VBv 32 x; VBv 32 s; VBv 32 l; VBv 32 f] = Some (VBv 32 z) /\ 0 <= z < pow2 32 /\
+    forall r, c_macro "deposit32" [cx; cs; cl; cf] = Some r -> r = ((false, 32%N), z).
+Proof.
+  intros Hx Hs Hl Hf Rs Rl. eexists. split; [reflexivity|]. split; [apply wrap_range|].
+  intros r H. cbn [c_macro] in H. rewrite Hx, Hf in H. cbn [snd] in H.
+  destruct ((0 <=? vint (conv int_t cs)) && (0 <? vint (conv int_t cl)) && (vint (conv int_t cs) + vint (conv int_t cl) <=? 32)) eqn:Ec; [|discriminate H].
+  rewrite (i32_arg cs s Hs Rs) in H by lia. rewrite (i32_arg cl l Hl Rl) in H by lia.
+  injection H as <-. reflexivity.
+Qed.
+
+Lemma mac_deposit64 cx cs cl cf x s l f :
+  conv (false, 64%N) cx = ((false, 64%N), x) -> conv i32_t cs = (i32_t, s) -> conv i32_t cl = (i32_t, l) ->
+  conv (false, 64%N) cf = ((false, 64%N), f) -> 0 <= s < pow2 32 -> 0 <= l < pow2 32 ->
+  exists z, app_sem "DEPOSIT64" [VBv 64 x; VBv 32 s; VBv 32 l; VBv 64 f] = Some (VBv 64 z) /\ 0 <= z < pow2 64 /\
+    forall r, c_macro "deposit64" [cx; cs; cl; cf] = Some r -> r = ((false, 64%N), z).
+Proof.
+  intros Hx Hs Hl Hf Rs Rl. eexists. split; [reflexivity|]. split; [apply wrap_range|].
+  intros r H. cbn [c_macro] in H. rewrite Hx, Hf in H. cbn [snd] in H.
+  destruct ((0 <=? vint (conv int_t cs)) && (0 <? vint (conv int_t cl)) && (vint (conv int_t cs) + vint (conv int_t cl) <=? 64)) eqn:Ec; [|discriminate H].
+  rewrite (i32_arg cs s Hs Rs) in H by lia. rewrite (i32_arg cl l Hl Rl) in H by lia.
+  injection H as <-. reflexivity.
+Qed.
+
+Lemma mac_bswap16 cx x : conv (false, 16%N) cx = ((false, 16%N), x) -> 0 <= x < pow2 16 ->
+  exists z, app_sem "BSWAP16" [VBv 16 x] = Some (VBv 16 z) /\ 0 <= z < pow2 16 /\
+    forall r, c_macro "bswap16" [cx] = Some r -> r = ((false, 16%N), z).
+Proof.
+  intros Hx Rx. eexists. split; [reflexivity|]. rewrite pow2_16 in *. split; [lia|].
+  intros r H. cbn [c_macro] in H. rewrite Hx in H. cbn [snd] in H. injection H as <-. unfold mkval. cbn [snd]. f_equal.
+  apply wrap_small. rewrite pow2_16. lia.
+Qed.
+Lemma mac_bswap32 cx x : conv (false, 32%N) cx = ((false, 32%N), x) -> 0 <= x < pow2 32 ->
+  exists z, app_sem "BSWAP32" [VBv 32 x] = Some (VBv 32 z) /\ 0 <= z < pow2 32 /\
+    forall r, c_macro "bswap32" [cx] = Some r -> r = ((false, 32%N), z).
+Proof.
+  intros Hx Rx. eexists. split; [reflexivity|]. rewrite pow2_32 in *. split; [lia|].
+  intros r H. cbn [c_macro] in H. rewrite Hx in H. cbn [snd] in H. injection H as <-. unfold mkval. cbn [snd]. f_equal.
+  apply wrap_small. rewrite pow2_32. lia.
+Qed.
+Lemma mac_bswap64 cx x : conv (false, 64%N) cx = ((false, 64%N), x) -> 0 <= x < pow2 64 ->
+  exists z, app_sem "BSWAP64" [VBv 64 x] = Some (VBv 64 z) /\ 0 <= z < pow2 64 /\
+    forall r, c_macro "bswap64" [cx] = Some r -> r = ((false, 64%N), z).
+Proof.
+  intros Hx Rx. eexists. split; [reflexivity|]. rewrite pow2_64 in *. split; [lia|].
+  intros r H. cbn [c_macro] in H. rewrite Hx in H. cbn [snd] in H. injection H as <-. unfold mkval. cbn [snd]. f_equal.
+  apply wrap_small. rewrite pow2_64. lia.
+Qed.
+
 Section Correct.
   Variables (subsigs : list subsig) (macs : list macsig) (cret : option vtype) (hstart : N).
+  (* the macro table gives QEMU's bit-field macros their standard signatures (only the lemmas about EMacro use this) *)
+  Hypothesis Hmacs : macs_std macs.
+  (* `sizeof` is not a compiled sub-routine (only the lemma about sizeof uses this) *)
+  Hypothesis Hsubs : subs_ext subsigs.
   Local Notation cfg := (mkcfg all_fixes subsigs macs [] cret hstart).
   Variable rw : regwidth.
   (* the register table and the removed names against which the emitted term is finalised (Lower.fin_pure):
@@ -752,6 +1093,91 @@ Section Correct.
   Proof. intros H. unfold bind. rewrite H. reflexivity. Qed.
 
   Definition islit (p : pval) : Prop := match pv_kind p with KLit _ _ => True | _ => False end.
+
+  (* ------------------------------------------------------------------ addresses, loaded values, macro arguments *)
+  (* the address of mem_load / mem_store: converted to the 32-bit address type (D20 repaired) *)
+  Lemma addr_ok p st : goodpv p ->
+    exists p', addr_of cfg p st = OK (p', st) /\
+      forall ms v, sem ms p v ->
+        exists w1 z, eval rw ms [] (fin (pv_term p')) = Some (VBv w1 z) /\
+                     snd (conv (false, 32%N) (cval_of (pv_ty p) v)) = z.
+  Proof.
+    intros Hg.
+    destruct (int_of_bool_ok p st Hg) as [p1 [s1 [w1 [I1 [G1 [T1 [W1 I5]]]]]]].
+    unfold addr_of. unfold bind at 1. rewrite I1. cbn [fx cfg_fx fx_addr all_fixes].
+    unfold bind, ty_eq, ret. rewrite T1. cbn [is_numeric ty_int vt_void vt_ext negb andb vt_w vt_tok].
+    destruct (vtype_eqb (ty_int s1 w1) (ty_int false 32)) eqn:Eeq; [|destruct (w1 =? 32)%N eqn:Ew].
+    - apply vtype_eqb_int in Eeq. destruct Eeq as [-> ->].
+      exists p1. split; [reflexivity|]. intros ms v Hs. destruct (I5 ms v Hs) as [v1 [S1 C1]].
+      destruct (sem_int ms p1 v1 false 32 T1 S1) as [z [-> [Hz He]]].
+      exists 32%N, z. split; [exact He|]. rewrite <- C1, T1. cbn [cval_of vt_sg ty_int].
+      unfold conv, mkval, vint. cbn [fst snd]. rewrite wrap_interp. apply wrap_small. exact Hz.
+    - apply N.eqb_eq in Ew. subst w1. cbn [andb].
+      exists p1. split; [reflexivity|]. intros ms v Hs. destruct (I5 ms v Hs) as [v1 [S1 C1]].
+      destruct (sem_int ms p1 v1 s1 32 T1 S1) as [z [-> [Hz He]]].
+      exists 32%N, z. split; [exact He|]. rewrite <- C1, T1. cbn [cval_of vt_sg ty_int].
+      unfold conv, mkval, vint. cbn [fst snd]. rewrite wrap_interp. apply wrap_small. exact Hz.
+    - cbn [andb].
+      destruct (init_a_cast_ok false 32 p1 st okw32 G1) as [p2 [H1 [_ [H3 [_ H5]]]]].
+      rewrite H1. exists p2. split; [reflexivity|]. intros ms v Hs. destruct (I5 ms v Hs) as [v1 [S1 C1]].
+      destruct (H5 ms v1 S1) as [v2 [S2 C2]].
+      destruct (sem_int ms p2 v2 false 32 H3 S2) as [z [-> [Hz He]]].
+      exists 32%N, z. split; [exact He|]. rewrite <- C1, <- C2, H3. reflexivity.
+  Qed.
+
+  (* a value of a Token-width type (the result type of mem_load) converted to an integer type *)
+  Lemma init_a_cast_tok_ok sg w s0 w0 tm k tmps st : okw w -> okw w0 ->
+    exists p', init_a_cast cfg (ty_int sg w) (mkpv tm (ty_tok s0 w0) k tmps) st = OK (p', st) /\
+      goodpv p' /\ pv_ty p' = ty_int sg w /\ pv_kind p' = KExec /\
+      forall ms z, eval rw ms [] (fin tm) = Some (VBv w0 z) -> 0 <= z < pow2 w0 ->
+        exists v', sem ms p' v' /\ cval_of (pv_ty p') v' = conv (sg, w) ((s0, w0), z).
+  Proof.
+    intros Hw Hw0.
+    unfold init_a_cast, bind, ty_eq, ret. cbn [pv_ty pv_kind pv_tmps vt_float ty_int ty_tok orb is_numeric vt_void vt_ext negb andb].
+    assert (vtype_eqb (ty_int sg w) (ty_tok s0 w0) = false) as -> by reflexivity.
+    cbn [vt_bool ty_int ty_tok andb fx cfg_fx fx_cast_fill all_fixes vt_w vt_sg rd pv_term].
+    eexists; split; [reflexivity|]. split; [|split; [reflexivity|split; [reflexivity|]]].
+    { right. exists sg, w. cbn. auto. }
+    intros ms z He Hz.
+    exists (VBv w (wrap w (interp (s0, w0) z))). split.
+    - split; [|cbn [pv_ty]; apply shape_int; apply wrap_range].
+      cbn [pv_term]. destruct (w0 <? w)%N eqn:Elt.
+      + destruct s0; cbn [fin_pure eval]; rewrite He; f_equal; f_equal.
+        * apply (cast_widen w0 w true z); auto.
+        * apply (cast_widen w0 w false z); auto.
+      + unfold cast_il_exec. cbn [vt_w vt_sg ty_int ty_tok fin_pure eval].
+        destruct (sg && s0); cbn [fin_pure eval]; rewrite He; f_equal; f_equal; apply cast_narrow; auto; lia.
+    - cbn [pv_ty cval_of ty_int vt_sg]. reflexivity.
+  Qed.
+
+  (* one argument of a macro / sub-routine call converted to the parameter type: a step of Lower.lower_args *)
+  Lemma lower_args_cons p it sg w ptt rest tm st : okw w -> goodpv p ->
+    lower_args cfg it ptt st = OK ((rest, tm), st) ->
+    exists p', lower_args cfg (IPure p :: it) (ty_int sg w :: ptt) st = OK ((APure (rd p') :: rest, pv_tmps p' ++ tm), st) /\
+      forall ms v, sem ms p v ->
+        exists z, 0 <= z < pow2 w /\ eval rw ms [] (fin (pv_term p')) = Some (VBv w z) /\
+                  conv (sg, w) (cval_of (pv_ty p) v) = ((sg, w), z).
+  Proof.
+    intros Hw Hg Hrest. cbn [lower_args]. unfold bind at 1. rewrite Hrest. cbn [vt_ext ty_int].
+    unfold bind, ty_eq, ret.
+    assert (Hnum : is_numeric (pv_ty p) && is_numeric (ty_int sg w) = true).
+    { destruct Hg as [[Ht _] | [s0 [w0 [_ [Ht _]]]]]; rewrite Ht; reflexivity. }
+    rewrite Hnum.
+    destruct (vtype_eqb (pv_ty p) (ty_int sg w)) eqn:Eeq.
+    - exists p. split; [reflexivity|]. intros ms v Hs.
+      destruct Hg as [[Ht _] | [s0 [w0 [Hw0 [Ht _]]]]]; rewrite Ht in *.
+      + exfalso. unfold vtype_eqb in Eeq. cbn in Eeq. okw_cases Hw; discriminate.
+      + apply vtype_eqb_int in Eeq. destruct Eeq as [-> ->].
+        destruct (sem_int _ _ _ _ _ Ht Hs) as [z [-> [Hz He]]]. exists z. split; [exact Hz|]. split; [exact He|].
+        cbn [cval_of vt_sg ty_int]. apply (conv_same ((sg, w), z)). split; auto.
+    - destruct (init_a_cast_ok sg w p st Hw Hg) as [p' [H1 [_ [H3 [_ H5]]]]]. rewrite H1.
+      exists p'. split; [reflexivity|]. intros ms v Hs. destruct (H5 ms v Hs) as [v' [Hs' Hc]].
+      destruct (sem_int ms p' v' sg w H3 Hs') as [z [-> [Hz He]]].
+      exists z. split; [exact Hz|]. split; [exact He|]. rewrite <- Hc, H3. reflexivity.
+  Qed.
+
+  Lemma find_mac_std sg : In sg std_macs -> find_mac cfg (mac_name sg) = Some sg.
+  Proof. intros H. unfold find_mac. cbn [cfg_macros]. exact (Hmacs sg H). Qed.
 
   Lemma lit_match2 {A} (ka kc : kind) (X : Z -> bool -> Z -> bool -> A) (Y : A) :
     ~ ((match ka with KLit _ _ => True | _ => False end) /\ (match kc with KLit _ _ => True | _ => False end)) ->
@@ -1221,12 +1647,13 @@ Section Correct.
   (* ------------------------------------------------------------------ casts *)
   Definition cast_ty (ts : tyspec) (sg : bool) (w : N) : Prop :=
     (ts = [TS_intN sg w] /\ okw w) \/ (ts = [TS_int] /\ sg = true /\ w = 32%N) \/
-    (ts = [TS_unsigned] /\ sg = false /\ w = 32%N) \/ (ts = [TS_unsigned; TS_int] /\ sg = false /\ w = 32%N).
+    (ts = [TS_unsigned] /\ sg = false /\ w = 32%N) \/ (ts = [TS_unsigned; TS_int] /\ sg = false /\ w = 32%N) \/
+    (exists b, ts = [TS_sizeN b sg] /\ w = (b * 8)%N /\ okw w).     (* QEMU's sizeNs_t / sizeNu_t *)
 
   Lemma cast_ty_ok ts sg w st : cast_ty ts sg w ->
     resolve_cast_ty ts st = OK (ty_int sg w, st) /\ resolve_ty_c ts = Some (sg, w) /\ okw w.
   Proof.
-    intros [[-> Hw] | [[-> [-> ->]] | [[-> [-> ->]] | [-> [-> ->]]]]]; repeat split; auto.
+    intros [[-> Hw] | [[-> [-> ->]] | [[-> [-> ->]] | [[-> [-> ->]] | [b [-> [-> Hw]]]]]]]; repeat split; auto.
   Qed.
 
   Lemma lower_cast_ok ts sg w a st : cast_ty ts sg w -> goodpv a ->
@@ -1332,6 +1759,8 @@ Section Correct.
   (* ================================================================== Layer 4: the fragment, the state relation, the theorem *)
   Variable E : cenv.
   Variable csub : csubs.
+  (* ... and CSem's sub-routine table gives it no body (only the lemma about sizeof uses this) *)
+  Hypothesis Hcsub : csub_ext csub.
   Variable xi : string -> bool -> option (regop * N).
 
   (* over-approximation of "lowers to a literal (KLit)" *)
@@ -1346,6 +1775,7 @@ Section Correct.
     | ECast _ a => litlike a
     | EUn UNot a | EUn UMinus a => litlike a
     | EBin b l r => folding_opb b && litlike l && litlike r
+    | Ast.ECall f _ => String.eqb f "sizeof"
     | _ => false
     end.
 
@@ -1358,6 +1788,11 @@ Section Correct.
      tracked by [lst_ok]); IM = the letters of the immediates the behaviour uses.  Register operands: the machine must give the operand handle the width the
      shortcode convention gives the operand (RsV and RssV share the handle ISA2REG(hi,'s'): an instruction
      uses one of them). *)
+  (* QEMU's pure bit-field macros, by arity *)
+  Definition is_mac1 (m : string) : Prop := m = "bswap16" \/ m = "bswap32" \/ m = "bswap64".
+  Definition is_mac3 (m : string) : Prop := m = "extract32" \/ m = "extract64" \/ m = "sextract64".
+  Definition is_mac4 (m : string) : Prop := m = "deposit32" \/ m = "deposit64".
+
   Inductive pfrag (V : list (string * option vtype)) : cexpr -> Prop :=
   | pf_ident x sg w : lookup x V = Some (Some (ty_int sg w)) -> okw w -> pfrag V (EOp (OIdent x))
   | pf_num v hex suf t : 0 <= v -> literal_type v hex suf = Some t -> pfrag V (EOp (ONum v hex suf))
@@ -1368,14 +1803,30 @@ Section Correct.
       reg_cls true cls -> access_of_letters letters = Some acc ->
       rw (rop cls letters true) = dest_w cls acc -> pfrag V (EOp (ONewReg cls letters))
   | pf_imm l : IM l = true -> pfrag V (EOp (OImm l))      (* siV uiV riV ... *)
+  | pf_alias name new :                      (* HEX_REG_ALIAS_USR, HEX_REG_ALIAS_LC0_NEW ... (not the program counter) *)
+      In name alias_names -> rw (alias_op name new) = alias_w name -> pfrag V (EOp (OAlias name new))
+  | pf_pc : pfrag V (EOp (OAlias "PC" false))   (* HEX_REG_ALIAS_PC: read only; emitted as the packet address *)
   | pf_cast ts sg w e : cast_ty ts sg w -> pfrag V e -> pfrag V (ECast ts e)
   | pf_un u e : (u = UNot \/ u = UMinus \/ u = ULNot) -> pfrag V e -> pfrag V (EUn u e)
   | pf_bin b l r : is_folding_op b \/ is_plain_op b -> pfrag V l -> pfrag V r -> pfrag V (EBin b l r)
-  | pf_cond c t f : pfrag V c -> pfrag V t -> pfrag V f -> litlike c = false -> pfrag V (ECond c t f).
+  | pf_cond c t f : pfrag V c -> pfrag V t -> pfrag V f -> litlike c = false -> pfrag V (ECond c t f)
+  | pf_sizeof e : pfrag V e -> pfrag V (Ast.ECall "sizeof" (ECons e ENil))    (* sizeof(e): a compile-time literal (see inv_sizeof) *)
+  | pf_load ts sg w lsg lw a :               (* (T) mem_load_<s|u><lw>(a): a memory load, converted to an integer type *)
+      cast_ty ts sg w -> okw lw -> pfrag V a -> pfrag V (ECast ts (ELoad lsg lw (ECons a ENil)))
+  | pf_mac1 m x : is_mac1 m -> pfrag V x -> pfrag V (EMacro m (ECons x ENil))                       (* bswap16/32/64(x) *)
+  | pf_mac3 m x s l : is_mac3 m -> pfrag V x -> pfrag V s -> pfrag V l ->                           (* extract32/64, sextract64 (x, start, len) *)
+      pfrag V (EMacro m (ECons x (ECons s (ECons l ENil))))
+  | pf_mac4 m x s l f : is_mac4 m -> pfrag V x -> pfrag V s -> pfrag V l -> pfrag V f ->            (* deposit32/64 (x, start, len, field) *)
+      pfrag V (EMacro m (ECons x (ECons s (ECons l (ECons f ENil))))).
+
+  (* the value an immediate has in C: the encoded one, unless the behaviour has assigned the immediate (CSem keeps an
+     assigned immediate in the C local "imm:<letter>") *)
+  Definition cimm (cs : cstate) (l : string) : Z :=
+    match lookup ("imm:" +++ l) (cs_vars cs) with Some (_, Some v) => v | _ => wrap 32 (ce_imms E l) end.
 
   (* the state relation: every declared integer local holds the same in-range value on both sides; the
      registers written so far are the same list; the operand environment of the C side (old register file,
-     new-value bank of the producers, immediates) is the one of the IL machine; no immediate was assigned *)
+     new-value bank of the producers, immediates) is the one of the IL machine *)
   Definition rel (V : list (string * option vtype)) (cs : cstate) (ms : mstate) : Prop :=
     (forall x sg w, lookup x V = Some (Some (ty_int sg w)) -> okw w ->
       exists v, lookup x (cs_vars cs) = Some ((sg, w), Some v) /\ 0 <= v < pow2 w /\
@@ -1383,12 +1834,16 @@ Section Correct.
     cs_regw cs = rnew ms /\
     (forall r, ce_rold E r = rold ms r) /\ (forall r, ce_rnew0 E r = rnew0 ms r) /\
     (forall l, ce_imms E l = imms ms l) /\
-    (forall l, IM l = true -> lookup ("imm:" +++ l) (cs_vars cs) = None).
+    (forall l, IM l = true -> 0 <= cimm cs l < pow2 32) /\
+    cs_mem cs = mem ms /\ (forall a, ce_mem0 E a = mem0 ms a) /\
+    (* the packet address; the program counter alias has not been written *)
+    ce_pktaddr E = pktaddr ms /\ lookup_reg pc_op (cs_regw cs) = None.
 
-  (* the immediate prologue J (a list of effects SETL(l, ISA2IMM l), Lower.st_imms) has been executed *)
-  Definition imms_done (J : list effect) (ms : mstate) : Prop :=
-    forall l, IM l = true -> In (imm_entry l) J -> lookup l (locals ms) = Some (VBv 32 (wrap 32 (imms ms l))).
-  Lemma imms_done_incl A B ms : incl A B -> imms_done B ms -> imms_done A ms.
+  (* the immediate prologue J (a list of effects SETL(l, ISA2IMM l), Lower.st_imms) has been executed: the RzIL local of
+     every immediate of J holds the value the immediate has in C (the encoded one, or the one assigned since) *)
+  Definition imms_done (J : list effect) (cs : cstate) (ms : mstate) : Prop :=
+    forall l, IM l = true -> In (imm_entry l) J -> lookup l (locals ms) = Some (VBv 32 (cimm cs l)).
+  Lemma imms_done_incl A B cs ms : incl A B -> imms_done B cs ms -> imms_done A cs ms.
   Proof. intros Hi H l Hl Hin. apply H; auto. Qed.
 
   (* the model states the fragment reaches, V being the declared locals: the variable table is V plus the
@@ -1420,7 +1875,7 @@ Section Correct.
   (* the semantic half of the invariant: for the term finalised against any later register table R *)
   Definition semok (V : list (string * option vtype)) (e : cexpr) (pv : pval) (st' : lstate) : Prop :=
     regs_le (st_regs st') R -> norem rem ->
-    forall cs ms, rel V cs ms -> imms_done (st_imms st') ms ->
+    forall cs ms, rel V cs ms -> imms_done (st_imms st') cs ms ->
       exists ilv, sem ms pv ilv /\
         forall fuel cs' cv, ceval E csub xi fuel cs e = Some (cs', cv) -> arms_ok fuel cs e ->
           cs' = cs /\ cv = cval_of (pv_ty pv) ilv.
@@ -1431,9 +1886,17 @@ Section Correct.
     apply H; [eapply regs_le_trans; eassumption | exact Hrem | exact Hrel | eapply imms_done_incl; eassumption].
   Qed.
 
+  (* the model's variable table may hold MORE declared locals (Vl) than the run-time states are related on (V): the
+     implicitly declared EA of `EA = e` is entered into the table before e is lowered, and gets its value after *)
+  Definition vext (V Vl : list (string * option vtype)) : Prop := forall x t, lookup x V = Some t -> lookup x Vl = Some t.
+  Lemma vext_refl V : vext V V.
+  Proof. intros x t H. exact H. Qed.
+  Lemma vext_snoc V x t : lookup x V = None -> vext V (V ++ [(x, t)]).
+  Proof. intros Hx y u Hy. rewrite lookup_app, Hy. reflexivity. Qed.
+
   Definition Inv (V : list (string * option vtype)) (e : cexpr) : Prop :=
-    forall st, lst_ok V st ->
-      exists pv st', lower_expr cfg e st = OK (IPure pv, st') /\ st_ext st st' /\ lst_ok V st' /\
+    forall Vl st, vext V Vl -> lst_ok Vl st ->
+      exists pv st', lower_expr cfg e st = OK (IPure pv, st') /\ st_ext st st' /\ lst_ok Vl st' /\
         goodpv pv /\ litinv pv /\ (islit pv -> litlike e = true) /\ semok V e pv st'.
 
   Lemma nolit_litinv p : ~ islit p -> litinv p.
@@ -1444,7 +1907,7 @@ Section Correct.
 
   Lemma inv_ident V x sg w : lookup x V = Some (Some (ty_int sg w)) -> okw w -> Inv V (EOp (OIdent x)).
   Proof.
-    intros Hl Hw st Hok. destruct (lst_ok_local V st x _ Hok Hl) as [_ Hls].
+    intros Hl Hw Vl st Hext Hok. destruct (lst_ok_local Vl st x _ Hok (Hext _ _ Hl)) as [_ Hls].
     eexists (mkpv (PVarL x) (ty_int sg w) (if String.eqb (substring 0 5 x) "h_tmp" then KTmp x false else KVar x) []), st.
     split. { cbn [lower_expr lower_operand cfg_params lookup]. unfold bind, get. rewrite Hls. reflexivity. }
     split. { apply st_ext_refl. }
@@ -1471,7 +1934,7 @@ Section Correct.
 
   Lemma inv_num V v hex suf t : 0 <= v -> literal_type v hex suf = Some t -> Inv V (EOp (ONum v hex suf)).
   Proof.
-    intros Hv Hl st Hok. destruct (literal_type_cases _ _ _ _ Hl) as [Hw Hfit]. destruct t as [sg w]. cbn [fst snd] in *.
+    intros Hv Hl Vl st Hext Hok. destruct (literal_type_cases _ _ _ _ Hl) as [Hw Hfit]. destruct t as [sg w]. cbn [fst snd] in *.
     assert (Hokw : okw w) by (destruct Hw as [-> | ->]; auto).
     exists (mkpv (PBv sg w v) (ty_int sg w) (KLit v false) []).
     eexists.
@@ -1497,11 +1960,37 @@ Section Correct.
   Proof.
     intros Hc Ha Hr Hl Hle Hrem. cbn [fin_pure]. rewrite reg_name_of_reg. unfold reg_read.
     destruct (Hle _ _ Hl) as [ri' [L' [O' [P' [N' W']]]]]. rewrite L', Hrem.
-    destruct (Hr _ _ Hl) as [cls' [l' [acc' [new' [Hc' [Ha' [Hn [Ho [_ [Hp [Hnw [Hw _]]]]]]]]]]]].
+    destruct (entry_isa _ _ cls letters new (Hr _ _ Hl) (reg_cls_any _ _ Hc) (access_in_table _ _ Ha) eq_refl)
+      as [cls' [l' [acc' [new' [Hc' [Ha' [Hn [Ho [_ [Hp [Hnw [Hw Hu]]]]]]]]]]]].
     destruct (rname_inj _ _ _ _ _ _ (reg_cls_any _ _ Hc) (reg_cls_any _ _ Hc') (access_in_table _ _ Ha) (access_in_table _ _ Ha') Hn)
       as [<- [<- <-]].
     rewrite Ha in Ha'. injection Ha' as <-.
+    destruct W' as [[_ W'] | [W' _]]; [contradiction|].
     rewrite W', Hw, P', Hp, O', Ho, N', Hnw. destruct (write_only acc); reflexivity.
+  Qed.
+
+  (* an alias: READ_REG(ALIAS2OP(..), b); b is the new bank for a _NEW alias, and for an alias the behaviour writes *)
+  Lemma fin_alias_read regs name new ri : In name alias_names ->
+    regs_ok regs -> lookup_reg_info (alias_tname name new) regs = Some ri -> regs_le regs R -> norem rem ->
+    exists b, fin (PRaw ("$reg:" +++ alias_tname name new)) = PReg (alias_op name new) b /\ (new = true -> b = true).
+  Proof.
+    intros Hin Hr Hl Hle Hrem. cbn [fin_pure]. rewrite reg_name_of_reg. unfold reg_read.
+    destruct (Hle _ _ Hl) as [ri' [L' [O' [P' [N' _]]]]]. rewrite L', Hrem.
+    destruct (entry_alias _ _ name new (Hr _ _ Hl) Hin eq_refl) as [nm [nw [Hin' [Hn [Ho [_ [Hp Hnw]]]]]]].
+    destruct (alias_tname_inj _ _ _ _ Hin Hin' Hn) as [<- <-].
+    rewrite P', Hp, O', Ho, N', Hnw. destruct (write_only (r_acc ri')); eexists; (split; [reflexivity|]); auto.
+  Qed.
+
+  Lemma read_reg_alias ms name new b : (new = true -> b = true) ->
+    read_reg rw ms (alias_op name new) b =
+    VBv (rw (alias_op name new))
+        (wrap (rw (alias_op name new))
+              (match lookup_reg (alias_op name new) (rnew ms) with
+               | Some v => v
+               | None => if new then rnew0 ms (alias_op name new) else rold ms (alias_op name new) end)).
+  Proof.
+    intros Hb. unfold read_reg, alias_op. cbn [regop_is_new regop_dest_only].
+    destruct new; [rewrite (Hb eq_refl); reflexivity|]. destruct b; reflexivity.
   Qed.
 
   Lemma read_reg_src ms cls letters acc : access_of_letters letters = Some acc ->
@@ -1573,8 +2062,8 @@ Section Correct.
   Lemma inv_reg V cls letters acc : dest_cls cls -> access_of_letters letters = Some acc ->
     rw (RIsa cls (substring 0 1 letters) false) = dest_w cls acc -> Inv V (EOp (OReg cls letters)).
   Proof.
-    intros Hc Ha Hrw st Hok.
-    destruct (inv_reg_low V cls letters acc false st (or_introl Hc) Ha Hok) as [st' [L [Hx [Hok' Hev]]]].
+    intros Hc Ha Hrw Vl st Hext Hok.
+    destruct (inv_reg_low Vl cls letters acc false st (or_introl Hc) Ha Hok) as [st' [L [Hx [Hok' Hev]]]].
     eexists _, st'.
     split. { cbn [lower_expr lower_operand]. unfold bind. rewrite L. reflexivity. }
     split; [exact Hx|]. split; [exact Hok'|].
@@ -1592,8 +2081,8 @@ Section Correct.
   Lemma inv_newreg V cls letters acc : reg_cls true cls -> access_of_letters letters = Some acc ->
     rw (rop cls letters true) = dest_w cls acc -> Inv V (EOp (ONewReg cls letters)).
   Proof.
-    intros Hc Ha Hrw st Hok.
-    destruct (inv_reg_low V cls letters acc true st Hc Ha Hok) as [st' [L [Hx [Hok' Hev]]]].
+    intros Hc Ha Hrw Vl st Hext Hok.
+    destruct (inv_reg_low Vl cls letters acc true st Hc Ha Hok) as [st' [L [Hx [Hok' Hev]]]].
     eexists _, st'.
     split. { cbn [lower_expr lower_operand]. unfold bind. rewrite L. reflexivity. }
     split; [exact Hx|]. split; [exact Hok'|].
@@ -1608,26 +2097,129 @@ Section Correct.
       cbn [pv_ty cval_of vt_sg ty_int]. unfold mkval. cbn [snd]. rewrite Hregw, Hrnew0. reflexivity.
   Qed.
 
+  Lemma ceval_alias k cs name new :
+    ceval E csub xi (S k) cs (EOp (OAlias name new)) =
+    Some (cs, mkval (false, alias_w name)
+                (match lookup_reg (alias_op name new) (cs_regw cs) with
+                 | Some v => v
+                 | None => if new then ce_rnew0 E (alias_op name new)
+                           else if String.eqb name "PC" then ce_pktaddr E else ce_rold E (alias_op name new) end)).
+  Proof.
+    cbn [ceval operand_lval read_lval]. change (RAlias ("HEX_REG_ALIAS_" ++ name)%string new) with (alias_op name new).
+    destruct (lookup_reg _ (cs_regw cs)); reflexivity.
+  Qed.
+
+  Lemma alias_not_pc name : In name alias_names -> String.eqb name "PC" = false.
+  Proof. intros H. cbn [alias_names In] in H. repeat (destruct H as [<- | H]; [reflexivity|]). contradiction. Qed.
+
+  Lemma inv_alias V name new : In name alias_names -> rw (alias_op name new) = alias_w name -> Inv V (EOp (OAlias name new)).
+  Proof.
+    intros Hin Hrw Vl st Hext Hok. destruct (alias_facts name Hin) as [_ [_ Hw]].
+    destruct (lower_alias_ok cfg name new st Hin (proj2 (proj2 (proj2 (proj2 Hok))))) as [st' [L [Hv [Hi [Hx [Hr [_ [ri Hl]]]]]]]].
+    eexists _, st'.
+    split. { cbn [lower_expr]. exact L. }
+    split; [exact Hx|]. split; [eapply lst_ok_regs; eassumption|].
+    assert (Hg : goodpv (mkpv (PRaw ("$reg:" +++ alias_tname name new)) (ty_int false (alias_w name)) (KReg (alias_tname name new)) [])).
+    { right. exists false, (alias_w name). cbn. auto. }
+    assert (Hnl : ~ islit (mkpv (PRaw ("$reg:" +++ alias_tname name new)) (ty_int false (alias_w name)) (KReg (alias_tname name new)) [])).
+    { unfold islit. cbn. auto. }
+    split; [exact Hg|]. split; [apply nolit_litinv; exact Hnl|]. split; [intros H; contradiction|].
+    intros HR Hrem cs ms Hrel _. destruct Hrel as [_ [Hregw [Hrold [Hrnew0 _]]]].
+    destruct (fin_alias_read (st_regs st') name new ri Hin Hr Hl HR Hrem) as [b [Hfin Hb]].
+    eexists. split.
+    - split.
+      + cbn [pv_term]. rewrite Hfin. cbn [eval]. rewrite (read_reg_alias ms name new b Hb), Hrw. reflexivity.
+      + cbn [pv_ty]. apply shape_int. apply wrap_range.
+    - intros fuel cs' cv Hce _. destruct fuel as [|k]; [discriminate|].
+      rewrite (ceval_alias k cs name new) in Hce. injection Hce as <- <-. split; [reflexivity|].
+      cbn [pv_ty cval_of vt_sg ty_int]. unfold mkval. cbn [snd]. rewrite Hregw, Hrold, Hrnew0, (alias_not_pc name Hin). reflexivity.
+  Qed.
+
+  (* the program counter: as long as the behaviour does not write the alias, its reads are the packet address *)
+  Lemma fin_pc_read regs ri : regs_ok regs -> lookup_reg_info "pc" regs = Some ri -> regs_le regs R -> norem rem ->
+    fin (PRaw ("$reg:" +++ "pc")) = PPktAddr.
+  Proof.
+    intros Hr Hl Hle Hrem. cbn [fin_pure]. rewrite reg_name_of_reg. unfold reg_read.
+    destruct (Hle _ _ Hl) as [ri' [L' [O' [P' [N' W']]]]]. rewrite L', Hrem.
+    destruct (entry_pc _ _ (Hr _ _ Hl) eq_refl) as [_ [Ho [_ [Hp [Hnw Ha]]]]].
+    rewrite Hp in W', P'. destruct W' as [[W' _] | [W' _]]; [discriminate W'|].
+    rewrite Ha in W'. cbn [write_only] in W'. rewrite W', P'. reflexivity.
+  Qed.
+
+  Lemma inv_pc V : Inv V (EOp (OAlias "PC" false)).
+  Proof.
+    intros Vl st Hext Hok.
+    destruct (lower_pc_ok cfg st (proj2 (proj2 (proj2 (proj2 Hok))))) as [st' [L [Hv [Hi [Hx [Hr [_ [ri Hl]]]]]]]].
+    eexists _, st'.
+    split. { cbn [lower_expr]. exact L. }
+    split; [exact Hx|]. split; [eapply lst_ok_regs; eassumption|].
+    assert (Hg : goodpv (mkpv (PRaw ("$reg:" +++ "pc")) (ty_int false 32) (KReg "pc") [])).
+    { right. exists false, 32%N. cbn. auto. }
+    assert (Hnl : ~ islit (mkpv (PRaw ("$reg:" +++ "pc")) (ty_int false 32) (KReg "pc") [])).
+    { unfold islit. cbn. auto. }
+    split; [exact Hg|]. split; [apply nolit_litinv; exact Hnl|]. split; [intros H; contradiction|].
+    intros HR Hrem cs ms Hrel _. destruct Hrel as [_ [_ [_ [_ [_ [_ [_ [_ [Hpk Hpc]]]]]]]]].
+    exists (VBv 32 (wrap 32 (pktaddr ms))). split.
+    - split.
+      + cbn [pv_term]. rewrite (fin_pc_read (st_regs st') ri Hr Hl HR Hrem). reflexivity.
+      + cbn [pv_ty]. apply shape_int. apply wrap_range.
+    - intros fuel cs' cv Hce _. destruct fuel as [|k]; [discriminate|].
+      cbn [ceval operand_lval read_lval] in Hce. change (RAlias ("HEX_REG_ALIAS_" ++ "PC")%string false) with pc_op in Hce.
+      rewrite Hpc in Hce. cbn [option_map String.eqb Ascii.eqb Bool.eqb] in Hce. injection Hce as <- <-. split; [reflexivity|].
+      cbn [pv_ty cval_of vt_sg ty_int]. unfold mkval, alias_width. cbn [snd existsb String.eqb Ascii.eqb Bool.eqb orb]. rewrite Hpk. reflexivity.
+  Qed.
+
   (* ------------------------------------------------------------------ immediates *)
   Lemma lookup_snoc_other {A} x y (v : A) l : String.eqb x y = false -> lookup x (l ++ [(y, v)]) = lookup x l.
   Proof. intros H. rewrite lookup_app. cbn [lookup]. rewrite H. destruct (lookup x l); reflexivity. Qed.
   Lemma lookup_snoc_some {A} x y (v w : A) l : lookup x l = Some w -> lookup x (l ++ [(y, v)]) = Some w.
   Proof. intros H. rewrite lookup_app, H. reflexivity. Qed.
 
+  (* the lowering half, also used for an immediate as the DESTINATION of an assignment *)
+  Lemma imm_low V l st : IM l = true -> lst_ok V st ->
+    exists st', lower_operand cfg (OImm l) st = OK (IPure (mkpv (PVarL l) (imm_ty l) (KVar l) []), st') /\
+      st_ext st st' /\ lst_ok V st' /\ In (imm_entry l) (st_imms st') /\ (started st -> st_nonempty st' = true).
+  Proof.
+    intros Hl Hok. pose proof Hok as [H1 [H2 [H3 [H4 H5]]]].
+    destruct (H3 l Hl) as [Hn | [Hs Hin]].
+    - eexists.
+      split. { cbn [lower_operand]. unfold bind, get. rewrite Hn. unfold put, ret. reflexivity. }
+      split. { unfold st_ext. cbn [st_pending st_hcount st_imms st_removed st_nonempty st_regs].
+               repeat split; auto using regs_le_refl. apply incl_appl, incl_refl. }
+      split.
+      { unfold lst_ok. cbn [st_vars st_imms st_regs]. split; [|split; [exact H2|split; [|split; [|exact H5]]]].
+        - intros x Hx. rewrite lookup_snoc_other; [apply H1; exact Hx|].
+          destruct (String.eqb_spec x l) as [->|_]; [congruence | reflexivity].
+        - intros l' Hl'. destruct (String.eqb_spec l' l) as [->|Hne].
+          + right. split; [rewrite lookup_app, Hn; cbn [lookup]; rewrite String.eqb_refl; reflexivity | apply in_or_app; right; left; reflexivity].
+          + rewrite lookup_snoc_other by (apply String.eqb_neq; exact Hne).
+            destruct (H3 l' Hl') as [? | [? ?]]; [left; assumption | right; split; [assumption | apply in_or_app; left; assumption]].
+        - apply Forall_app. split.
+          + eapply Forall_impl; [|exact H4]. intros e [l' [A [B C]]]. exists l'. split; [exact A|]. split; [exact B|].
+            apply lookup_snoc_some. exact C.
+          + constructor; [|constructor]. exists l. split; [exact Hl|]. split; [reflexivity|].
+            rewrite lookup_app, Hn. cbn [lookup]. rewrite String.eqb_refl. reflexivity. }
+      split; [cbn [st_imms]; apply in_or_app; right; left; reflexivity | intros _; reflexivity].
+    - exists st.
+      split. { cbn [lower_operand]. unfold bind, get. rewrite Hs. reflexivity. }
+      split; [apply st_ext_refl|]. split; [exact Hok|]. split; [exact Hin|].
+      intros [Hst | [Hst _]]; [exact Hst|]. rewrite Hst in Hs. discriminate Hs.
+  Qed.
+
   Lemma inv_imm V l : IM l = true -> Inv V (EOp (OImm l)).
   Proof.
-    intros Hl st Hok. pose proof Hok as [H1 [H2 [H3 [H4 H5]]]].
+    intros Hl Vl st Hext Hok. pose proof Hok as [H1 [H2 [H3 [H4 H5]]]].
     assert (Hg : goodpv (mkpv (PVarL l) (imm_ty l) (KVar l) [])).
     { right. exists (imm_signed l), 32%N. cbn. auto. }
     assert (Hnl : ~ islit (mkpv (PVarL l) (imm_ty l) (KVar l) [])) by (unfold islit; cbn; auto).
     assert (Hsem : forall st', In (imm_entry l) (st_imms st') -> semok V (EOp (OImm l)) (mkpv (PVarL l) (imm_ty l) (KVar l) []) st').
-    { intros st' Hin _ _ cs ms Hrel Himm. destruct Hrel as [_ [_ [_ [_ [Himms Hcn]]]]].
-      exists (VBv 32 (wrap 32 (imms ms l))). split.
-      - split; [exact (Himm l Hl Hin) | apply shape_int; apply wrap_range].
+    { intros st' Hin _ _ cs ms Hrel Himm. destruct Hrel as [_ [_ [_ [_ [Himms [Hcn _]]]]]].
+      exists (VBv 32 (cimm cs l)). split.
+      - split; [exact (Himm l Hl Hin) | apply shape_int; exact (Hcn l Hl)].
       - intros fuel cs' cv Hce _. destruct fuel as [|k]; [discriminate|].
         cbn [ceval operand_lval read_lval] in Hce. change ("imm:" ++ l)%string with ("imm:" +++ l) in Hce.
-        rewrite (Hcn l Hl) in Hce. injection Hce as <- <-. split; [reflexivity|].
-        cbn [pv_ty cval_of imm_ty vt_sg ty_int]. unfold mkval, imm_signed. cbn [snd]. rewrite Himms. reflexivity. }
+        cbn [pv_ty cval_of imm_ty vt_sg ty_int]. unfold cimm, imm_signed.
+        destruct (lookup ("imm:" +++ l) (cs_vars cs)) as [[t0 [v0|]]|]; injection Hce as <- <-; split; reflexivity. }
     destruct (H3 l Hl) as [Hn | [Hs Hin]].
     - (* first read: the immediate is declared and its prologue entry created *)
       eexists (mkpv (PVarL l) (imm_ty l) (KVar l) []), _.
@@ -1659,8 +2251,8 @@ Section Correct.
 
   Lemma inv_cast V ts sg w e : cast_ty ts sg w -> Inv V e -> Inv V (ECast ts e).
   Proof.
-    intros Hts IH st Hok.
-    destruct (IH st Hok) as [pa [st1 [L1 [S1 [K1 [Ga [La [Ll Hsem]]]]]]]].
+    intros Hts IH Vl st Hext Hok.
+    destruct (IH Vl st Hext Hok) as [pa [st1 [L1 [S1 [K1 [Ga [La [Ll Hsem]]]]]]]].
     destruct (lower_cast_ok ts sg w pa st1 Hts Ga) as [r [R1 [R2 [R3 R4]]]].
     exists r, st1.
     split. { cbn [lower_expr]. (erewrite bind_OK by exact L1). exact R1. }
@@ -1680,8 +2272,8 @@ Section Correct.
 
   Lemma inv_un V u e : (u = UNot \/ u = UMinus \/ u = ULNot) -> Inv V e -> Inv V (EUn u e).
   Proof.
-    intros Hu IH st Hok.
-    destruct (IH st Hok) as [pa [st1 [L1 [S1 [K1 [Ga [La [Ll Hsem]]]]]]]].
+    intros Hu IH Vl st Hext Hok.
+    destruct (IH Vl st Hext Hok) as [pa [st1 [L1 [S1 [K1 [Ga [La [Ll Hsem]]]]]]]].
     assert (exists r, lower_unop cfg u (IPure pa) st1 = OK (IPure r, st1) /\ goodpv r /\ litinv r /\
               (islit r -> litlike (EUn u e) = true) /\
               forall ms va, sem ms pa va ->
@@ -1736,9 +2328,9 @@ Section Correct.
              forall cv, c_binop b (cval_of (pv_ty pl) va) (cval_of (pv_ty pr) vc) = Some cv -> cv = cval_of (pv_ty q) vr) ->
     Inv V (EBin b l r).
   Proof.
-    intros Hb1 Hb2 IHl IHr Hop st Hok.
-    destruct (IHl st Hok) as [pl [st1 [L1 [S1 [K1 [Gl [Il [Ll Hseml]]]]]]]].
-    destruct (IHr st1 K1) as [pr [st2 [L2 [S2 [K2 [Gr [Ir [Lr Hsemr]]]]]]]].
+    intros Hb1 Hb2 IHl IHr Hop Vl st Hext Hok.
+    destruct (IHl Vl st Hext Hok) as [pl [st1 [L1 [S1 [K1 [Gl [Il [Ll Hseml]]]]]]]].
+    destruct (IHr Vl st1 Hext K1) as [pr [st2 [L2 [S2 [K2 [Gr [Ir [Lr Hsemr]]]]]]]].
     destruct (Hop pl pr st2 Gl Gr Il Ir Ll Lr) as [q [Q1 [Q2 [Q3 [Q5 Q4]]]]].
     exists q, st2.
     split. { cbn [lower_expr]. (erewrite bind_OK by exact L1). (erewrite bind_OK by exact L2). exact Q1. }
@@ -1819,9 +2411,9 @@ Section Correct.
 
   Lemma inv_logic V b l r : (b = Ast.BLAnd \/ b = Ast.BLOr) -> Inv V l -> Inv V r -> Inv V (EBin b l r).
   Proof.
-    intros Hb IHl IHr st Hok.
-    destruct (IHl st Hok) as [pl [st1 [L1 [S1 [K1 [Gl [_ [_ Hseml]]]]]]]].
-    destruct (IHr st1 K1) as [pr [st2 [L2 [S2 [K2 [Gr [_ [_ Hsemr]]]]]]]].
+    intros Hb IHl IHr Vl st Hext Hok.
+    destruct (IHl Vl st Hext Hok) as [pl [st1 [L1 [S1 [K1 [Gl [_ [_ Hseml]]]]]]]].
+    destruct (IHr Vl st1 Hext K1) as [pr [st2 [L2 [S2 [K2 [Gr [_ [_ Hsemr]]]]]]]].
     destruct (lower_logic_ok b pl pr st2 Hb Gl Gr) as [q [Q1 [Q2 [Q3 Q4]]]].
     exists q, st2.
     split. { cbn [lower_expr]. (erewrite bind_OK by exact L1). (erewrite bind_OK by exact L2). exact Q1. }
@@ -1852,10 +2444,10 @@ Section Correct.
 
   Lemma inv_cond V c t f : Inv V c -> Inv V t -> Inv V f -> litlike c = false -> Inv V (ECond c t f).
   Proof.
-    intros IHc IHt IHf Hnl st Hok.
-    destruct (IHc st Hok) as [pc [st1 [L1 [S1 [K1 [Gc [_ [Lc Hsemc]]]]]]]].
-    destruct (IHt st1 K1) as [pt [st2 [L2 [S2 [K2 [Gt [_ [_ Hsemt]]]]]]]].
-    destruct (IHf st2 K2) as [pf [st3 [L3 [S3 [K3 [Gf [_ [_ Hsemf]]]]]]]].
+    intros IHc IHt IHf Hnl Vl st Hext Hok.
+    destruct (IHc Vl st Hext Hok) as [pc [st1 [L1 [S1 [K1 [Gc [_ [Lc Hsemc]]]]]]]].
+    destruct (IHt Vl st1 Hext K1) as [pt [st2 [L2 [S2 [K2 [Gt [_ [_ Hsemt]]]]]]]].
+    destruct (IHf Vl st2 Hext K2) as [pf [st3 [L3 [S3 [K3 [Gf [_ [_ Hsemf]]]]]]]].
     assert (Hn : ~ islit pc) by (intros Hi; rewrite (Lc Hi) in Hnl; discriminate).
     destruct (cond_tail_ok pc pt pf st3 Gc Gt Gf Hn) as [q [Q1 [Q2 [Q3 Q4]]]].
     exists q, st3.
@@ -1883,6 +2475,375 @@ Section Correct.
     - discriminate.
   Qed.
 
+
+  (* ------------------------------------------------------------------ (T) mem_load_<s|u><w>(a) *)
+  Lemma lst_ok_touched0 V st : lst_ok V st -> lst_ok V (touched st).
+  Proof. intros H. eapply lst_ok_regs; [exact H | reflexivity | reflexivity | apply H]. Qed.
+
+  Definition load_tail (sg : bool) (w : N) (items : list item) : M item :=
+    match items with
+    | [IPure va0] => do va <- addr_of cfg va0; do _ <- touch; ret (IPure (mkpv (PLoad w (rd va)) (ty_tok sg w) KExec (pv_tmps va)))
+    | _ => fail "mem_load address"
+    end.
+  Lemma lower_expr_load sg w args : lower_expr cfg (ELoad sg w args) = (do items <- lower_exprs cfg args; load_tail sg w items).
+  Proof. reflexivity. Qed.
+  Lemma lower_exprs_one a : lower_exprs cfg (ECons a ENil) = (do i <- lower_expr cfg a; do r <- ret []; ret (i :: r)).
+  Proof. reflexivity. Qed.
+  Lemma lower_expr_cast t a : lower_expr cfg (ECast t a) = (do ia <- lower_expr cfg a; lower_cast cfg t ia).
+  Proof. reflexivity. Qed.
+
+  Lemma inv_cast_load V ts sg w lsg lw a : cast_ty ts sg w -> okw lw -> Inv V a -> Inv V (ECast ts (ELoad lsg lw (ECons a ENil))).
+  Proof.
+    intros Hts Hlw IH Vl st Hext Hok.
+    destruct (IH Vl st Hext Hok) as [pa [st1 [L1 [S1 [K1 [Ga [_ [_ Hsem]]]]]]]].
+    destruct (addr_ok pa st1 Ga) as [va [A1 A2]].
+    destruct (cast_ty_ok ts sg w (touched st1) Hts) as [R1 [Rc Hw]].
+    destruct (init_a_cast_tok_ok sg w lsg lw (PLoad lw (rd va)) KExec (pv_tmps va) (touched st1) Hw Hlw) as [r [C1 [C2 [C3 [C4 C5]]]]].
+    exists r, (touched st1).
+    split.
+    { rewrite lower_expr_cast, lower_expr_load, lower_exprs_one.
+      unfold bind at 1. unfold bind at 1. unfold bind at 1. rewrite L1.
+      unfold bind at 1. unfold ret at 1. unfold ret at 1. cbv beta iota.
+      unfold load_tail. unfold bind at 1. rewrite A1. unfold bind at 1. rewrite touch_eq. unfold ret at 1.
+      unfold lower_cast. (erewrite bind_OK by exact R1). (erewrite bind_OK by reflexivity).
+      unfold ty_eq. cbn [pv_ty is_numeric ty_tok ty_int vt_void vt_ext negb andb].
+      (erewrite bind_OK by reflexivity).
+      assert (vtype_eqb (ty_tok lsg lw) (ty_int sg w) = false) as -> by reflexivity.
+      (erewrite bind_OK by exact C1). reflexivity. }
+    split. { eapply st_ext_trans; [exact S1 | apply st_ext_touched]. }
+    split. { apply lst_ok_touched0. exact K1. }
+    split. { exact C2. }
+    assert (Hnl : ~ islit r) by (unfold islit; rewrite C4; auto).
+    split. { apply nolit_litinv. exact Hnl. }
+    split. { intros Hi. contradiction. }
+    intros HR Hrem cs ms Hrel Himm.
+    destruct (semok_mono _ _ _ _ _ (st_ext_touched st1) Hsem HR Hrem cs ms Hrel Himm) as [ila [Sa Hca]].
+    destruct (A2 ms ila Sa) as [w1 [x [Ea Cx]]].
+    set (z := wrap lw (read_bytes ms x (N.to_nat (lw / 8)))).
+    assert (Hz : 0 <= z < pow2 lw) by apply wrap_range.
+    assert (El : eval rw ms [] (fin (PLoad lw (rd va))) = Some (VBv lw z)).
+    { cbn [fin_pure eval]. unfold rd. rewrite Ea. reflexivity. }
+    destruct (C5 ms z El Hz) as [vr [Sr Cr]]. exists vr. split; [exact Sr|].
+    intros fuel cs' cv Hce _. destruct fuel as [|[|k]]; [discriminate Hce| |].
+    - cbn [ceval] in Hce. rewrite Rc in Hce. discriminate Hce.
+    - cbn [ceval] in Hce. rewrite Rc in Hce.
+      destruct (ceval E csub xi k cs a) as [[s1 v1]|] eqn:Ece; [|discriminate Hce].
+      destruct (Hca k s1 v1 Ece I) as [-> ->]. injection Hce as <- <-. split; [reflexivity|].
+      rewrite Cr. unfold conv at 1, mkval at 1 in Cx. cbn [snd] in Cx. rewrite Cx. destruct Hrel as [_ [_ [_ [_ [_ [_ [Hmem [Hmem0 _]]]]]]]].
+      rewrite (read_bytes_rel E cs ms Hmem Hmem0). reflexivity.
+  Qed.
+
+
+  (* ------------------------------------------------------------------ QEMU's bit-field macros: extract / sextract / deposit / bswap *)
+
+  Definition mac_tail (m : string) (items : list item) : M item :=
+    match find_mac cfg m with
+    | None => fail "Macro is not defined"
+    | Some mg =>
+        do '(al, tm) <- lower_args cfg items (mac_params mg);
+        do _ <- touch;
+        do ps <- (fix go (l : list arg) : M (list pure) :=
+                    match l with [] => ret [] | APure p :: t => do r <- go t; ret (p :: r)
+                               | ARaw s :: t => do r <- go t; ret (PRaw s :: r)
+                               | AOp (RParam h) :: t => do r <- go t; ret (PRaw ("$op:" +++ substring 5 (String.length h - 5) h) :: r)
+                               | AOp _ :: t => fail "macro operand argument" end) al;
+        ret (IPure (mkpv (PApp (mac_rz mg) ps) (mac_ret mg) KMacro tm))
+    end.
+  Lemma lower_expr_macro m args : lower_expr cfg (EMacro m args) = (do items <- lower_exprs cfg args; mac_tail m items).
+  Proof. reflexivity. Qed.
+  Lemma lower_exprs_cons a t : lower_exprs cfg (ECons a t) = (do i <- lower_expr cfg a; do r <- lower_exprs cfg t; ret (i :: r)).
+  Proof. reflexivity. Qed.
+  Lemma lower_exprs_nil : lower_exprs cfg ENil = ret [].
+  Proof. reflexivity. Qed.
+
+  (* what one argument contributes: its converted term evaluates to the C value converted to the parameter type *)
+  Definition argsem (t : cty) (p p' : pval) : Prop :=
+    forall ms v, sem ms p v ->
+      exists z, 0 <= z < pow2 (snd t) /\ eval rw ms [] (fin (pv_term p')) = Some (VBv (snd t) z) /\
+                conv t (cval_of (pv_ty p) v) = (t, z).
+
+  Lemma mac_tail1_ok m rz rsg rww xw px st :
+    In (mkmac m rz (ty_int rsg rww) [ty_int false xw]) std_macs -> okw xw -> goodpv px ->
+    exists x' tm, mac_tail m [IPure px] st = OK (IPure (mkpv (PApp rz [rd x']) (ty_int rsg rww) KMacro tm), touched st) /\
+      argsem (false, xw) px x'.
+  Proof.
+    intros Hin Hxw Gx. unfold mac_tail. rewrite (find_mac_std _ Hin : find_mac cfg m = _). cbn [mac_params mac_rz mac_ret].
+    destruct (lower_args_cons px [] false xw [] [] [] st Hxw Gx eq_refl) as [x' [Lx Sx]].
+    exists x'. eexists. split; [|exact Sx].
+    unfold bind at 1. rewrite Lx. cbv beta iota. unfold bind at 1. rewrite touch_eq. reflexivity.
+  Qed.
+
+  Lemma mac_tail3_ok m rz rsg rww xw px ps pl st :
+    In (mkmac m rz (ty_int rsg rww) [ty_int false xw; ty_int true 32; ty_int true 32]) std_macs -> okw xw ->
+    goodpv px -> goodpv ps -> goodpv pl ->
+    exists x' s' l' tm, mac_tail m [IPure px; IPure ps; IPure pl] st =
+        OK (IPure (mkpv (PApp rz [rd x'; rd s'; rd l']) (ty_int rsg rww) KMacro tm), touched st) /\
+      argsem (false, xw) px x' /\ argsem i32_t ps s' /\ argsem i32_t pl l'.
+  Proof.
+    intros Hin Hxw Gx Gs Gl. unfold mac_tail. rewrite (find_mac_std _ Hin : find_mac cfg m = _). cbn [mac_params mac_rz mac_ret].
+    destruct (lower_args_cons pl [] true 32 [] [] [] st okw32 Gl eq_refl) as [l' [Ll Sl]].
+    destruct (lower_args_cons ps _ true 32 _ _ _ st okw32 Gs Ll) as [s' [Ls Ss]].
+    destruct (lower_args_cons px _ false xw _ _ _ st Hxw Gx Ls) as [x' [Lx Sx]].
+    exists x', s', l'. eexists. split; [|split; [exact Sx | split; [exact Ss | exact Sl]]].
+    unfold bind at 1. rewrite Lx. cbv beta iota. unfold bind at 1. rewrite touch_eq. reflexivity.
+  Qed.
+
+  Lemma mac_tail4_ok m rz rsg rww xw px ps pl pf st :
+    In (mkmac m rz (ty_int rsg rww) [ty_int false xw; ty_int true 32; ty_int true 32; ty_int false xw]) std_macs -> okw xw ->
+    goodpv px -> goodpv ps -> goodpv pl -> goodpv pf ->
+    exists x' s' l' f' tm, mac_tail m [IPure px; IPure ps; IPure pl; IPure pf] st =
+        OK (IPure (mkpv (PApp rz [rd x'; rd s'; rd l'; rd f']) (ty_int rsg rww) KMacro tm), touched st) /\
+      argsem (false, xw) px x' /\ argsem i32_t ps s' /\ argsem i32_t pl l' /\ argsem (false, xw) pf f'.
+  Proof.
+    intros Hin Hxw Gx Gs Gl Gf. unfold mac_tail. rewrite (find_mac_std _ Hin : find_mac cfg m = _). cbn [mac_params mac_rz mac_ret].
+    destruct (lower_args_cons pf [] false xw [] [] [] st Hxw Gf eq_refl) as [f' [Lf Sf]].
+    destruct (lower_args_cons pl _ true 32 _ _ _ st okw32 Gl Lf) as [l' [Ll Sl]].
+    destruct (lower_args_cons ps _ true 32 _ _ _ st okw32 Gs Ll) as [s' [Ls Ss]].
+    destruct (lower_args_cons px _ false xw _ _ _ st Hxw Gx Ls) as [x' [Lx Sx]].
+    exists x', s', l', f'. eexists. split; [|split; [exact Sx | split; [exact Ss | split; [exact Sl | exact Sf]]]].
+    unfold bind at 1. rewrite Lx. cbv beta iota. unfold bind at 1. rewrite touch_eq. reflexivity.
+  Qed.
+
+  (* what the fragment needs of a macro: its table entry, and the agreement of CSem.c_macro with RzIL.app_sem *)
+  Lemma mac1_spec m : is_mac1 m -> exists rz rsg rww xw,
+    In (mkmac m rz (ty_int rsg rww) [ty_int false xw]) std_macs /\ okw xw /\ okw rww /\
+    forall cx x, conv (false, xw) cx = ((false, xw), x) -> 0 <= x < pow2 xw ->
+      exists z, app_sem rz [VBv xw x] = Some (VBv rww z) /\ 0 <= z < pow2 rww /\
+        forall r, c_macro m [cx] = Some r -> r = ((rsg, rww), z).
+  Proof.
+    intros [-> | [-> | ->]].
+    - exists "BSWAP16", false, 16%N, 16%N. split; [cbn; tauto|]. split; [unfold okw; auto|]. split; [unfold okw; auto|]. exact mac_bswap16.
+    - exists "BSWAP32", false, 32%N, 32%N. split; [cbn; tauto|]. split; [auto|]. split; [auto|]. exact mac_bswap32.
+    - exists "BSWAP64", false, 64%N, 64%N. split; [cbn; tauto|]. split; [auto|]. split; [auto|]. exact mac_bswap64.
+  Qed.
+  Lemma mac3_spec m : is_mac3 m -> exists rz rsg rww xw,
+    In (mkmac m rz (ty_int rsg rww) [ty_int false xw; ty_int true 32; ty_int true 32]) std_macs /\ okw xw /\ okw rww /\
+    forall cx cs cl x s l, conv (false, xw) cx = ((false, xw), x) -> conv i32_t cs = (i32_t, s) -> conv i32_t cl = (i32_t, l) ->
+      0 <= s < pow2 32 -> 0 <= l < pow2 32 ->
+      exists z, app_sem rz [VBv xw x; VBv 32 s; VBv 32 l] = Some (VBv rww z) /\ 0 <= z < pow2 rww /\
+        forall r, c_macro m [cx; cs; cl] = Some r -> r = ((rsg, rww), z).
+  Proof.
+    intros [-> | [-> | ->]].
+    - exists "EXTRACT32", false, 32%N, 32%N. split; [cbn; tauto|]. split; [auto|]. split; [auto|]. exact mac_extract32.
+    - exists "EXTRACT64", false, 64%N, 64%N. split; [cbn; tauto|]. split; [auto|]. split; [auto|]. exact mac_extract64.
+    - exists "SEXTRACT64", true, 64%N, 64%N. split; [cbn; tauto|]. split; [auto|]. split; [auto|]. exact mac_sextract64.
+  Qed.
+  Lemma mac4_spec m : is_mac4 m -> exists rz rsg rww xw,
+    In (mkmac m rz (ty_int rsg rww) [ty_int false xw; ty_int true 32; ty_int true 32; ty_int false xw]) std_macs /\ okw xw /\ okw rww /\
+    forall cx cs cl cf x s l f, conv (false, xw) cx = ((false, xw), x) -> conv i32_t cs = (i32_t, s) -> conv i32_t cl = (i32_t, l) ->
+      conv (false, xw) cf = ((false, xw), f) -> 0 <= s < pow2 32 -> 0 <= l < pow2 32 ->
+      exists z, app_sem rz [VBv xw x; VBv 32 s; VBv 32 l; VBv xw f] = Some (VBv rww z) /\ 0 <= z < pow2 rww /\
+        forall r, c_macro m [cx; cs; cl; cf] = Some r -> r = ((rsg, rww), z).
+  Proof.
+    intros [-> | ->].
+    - exists "DEPOSIT32", false, 32%N, 32%N. split; [cbn; tauto|]. split; [auto|]. split; [auto|]. exact mac_deposit32.
+    - exists "DEPOSIT64", false, 64%N, 64%N. split; [cbn; tauto|]. split; [auto|]. split; [auto|]. exact mac_deposit64.
+  Qed.
+
+  Lemma ceval_mac1 k cs m x :
+    ceval E csub xi (S k) cs (EMacro m (ECons x ENil)) =
+    match ceval E csub xi k cs x with
+    | Some (s1, vx) => option_map (fun r => (s1, r)) (c_macro m [vx])
+    | None => None end.
+  Proof. cbn [ceval]. destruct (ceval E csub xi k cs x) as [[s1 vx]|]; reflexivity. Qed.
+  Lemma ceval_mac3 k cs m x s l :
+    ceval E csub xi (S k) cs (EMacro m (ECons x (ECons s (ECons l ENil)))) =
+    match ceval E csub xi k cs x with
+    | Some (s1, vx) =>
+        match ceval E csub xi k s1 s with
+        | Some (s2, vs) =>
+            match ceval E csub xi k s2 l with
+            | Some (s3, vl) => option_map (fun r => (s3, r)) (c_macro m [vx; vs; vl])
+            | None => None end
+        | None => None end
+    | None => None end.
+  Proof.
+    cbn [ceval]. destruct (ceval E csub xi k cs x) as [[s1 vx]|]; [|reflexivity].
+    destruct (ceval E csub xi k s1 s) as [[s2 vs]|]; [|reflexivity].
+    destruct (ceval E csub xi k s2 l) as [[s3 vl]|]; reflexivity.
+  Qed.
+  Lemma ceval_mac4 k cs m x s l f :
+    ceval E csub xi (S k) cs (EMacro m (ECons x (ECons s (ECons l (ECons f ENil))))) =
+    match ceval E csub xi k cs x with
+    | Some (s1, vx) =>
+        match ceval E csub xi k s1 s with
+        | Some (s2, vs) =>
+            match ceval E csub xi k s2 l with
+            | Some (s3, vl) =>
+                match ceval E csub xi k s3 f with
+                | Some (s4, vf) => option_map (fun r => (s4, r)) (c_macro m [vx; vs; vl; vf])
+                | None => None end
+            | None => None end
+        | None => None end
+    | None => None end.
+  Proof.
+    cbn [ceval]. destruct (ceval E csub xi k cs x) as [[s1 vx]|]; [|reflexivity].
+    destruct (ceval E csub xi k s1 s) as [[s2 vs]|]; [|reflexivity].
+    destruct (ceval E csub xi k s2 l) as [[s3 vl]|]; [|reflexivity].
+    destruct (ceval E csub xi k s3 f) as [[s4 vf]|]; reflexivity.
+  Qed.
+
+  Lemma goodpv_mac tm sg w tmps : okw w -> goodpv (mkpv tm (ty_int sg w) KMacro tmps) /\ ~ islit (mkpv tm (ty_int sg w) KMacro tmps).
+  Proof. intros Hw. split; [right; exists sg, w; cbn; auto | unfold islit; cbn; auto]. Qed.
+
+  Lemma inv_mac1 V m x : is_mac1 m -> Inv V x -> Inv V (EMacro m (ECons x ENil)).
+  Proof.
+    intros Hm IHx Vl st Hext Hok.
+    destruct (mac1_spec m Hm) as [rz [rsg [rww [xw [Hin [Hxw [Hrw Hagree]]]]]]].
+    destruct (IHx Vl st Hext Hok) as [px [st1 [L1 [S1 [K1 [Gx [_ [_ Hsemx]]]]]]]].
+    destruct (mac_tail1_ok m rz rsg rww xw px st1 Hin Hxw Gx) as [x' [tm [T1 Ax]]].
+    destruct (goodpv_mac (PApp rz [rd x']) rsg rww tm Hrw) as [Gr Nr].
+    eexists _, (touched st1).
+    split. { rewrite lower_expr_macro, lower_exprs_cons, lower_exprs_nil. unfold bind at 1. unfold bind at 1. rewrite L1.
+             unfold bind at 1. unfold ret at 1 2. exact T1. }
+    split. { eapply st_ext_trans; [exact S1 | apply st_ext_touched]. }
+    split. { apply lst_ok_touched0. exact K1. }
+    split. { exact Gr. }
+    split. { apply nolit_litinv. exact Nr. }
+    split. { intros Hi. contradiction. }
+    intros HR Hrem cs ms Hrel Himm.
+    destruct (semok_mono _ _ _ _ _ (st_ext_touched st1) Hsemx HR Hrem cs ms Hrel Himm) as [vx [Sx Hcx]].
+    destruct (Ax ms vx Sx) as [zx [Rx [Ex Cx]]]. cbn [snd] in Rx, Ex.
+    destruct (Hagree _ zx Cx Rx) as [z [Happ [Rz Hc]]].
+    exists (VBv rww z). split.
+    - split; [|cbn [pv_ty]; apply shape_int; exact Rz].
+      cbn [pv_term fin_pure map eval]. unfold rd. rewrite Ex. cbn [rev app]. exact Happ.
+    - intros fuel cs' cv Hce _. destruct fuel as [|k]; [discriminate Hce|].
+      rewrite ceval_mac1 in Hce.
+      destruct (ceval E csub xi k cs x) as [[s1 v1]|] eqn:E1; [|discriminate Hce]. destruct (Hcx k s1 v1 E1 I) as [-> ->].
+      destruct (c_macro m _) as [r|] eqn:Er; [|discriminate Hce]. cbn [option_map] in Hce. injection Hce as <- <-.
+      split; [reflexivity|]. rewrite (Hc r eq_refl). reflexivity.
+  Qed.
+
+  Lemma inv_mac3 V m x s l : is_mac3 m -> Inv V x -> Inv V s -> Inv V l -> Inv V (EMacro m (ECons x (ECons s (ECons l ENil)))).
+  Proof.
+    intros Hm IHx IHs IHl Vl st Hext Hok.
+    destruct (mac3_spec m Hm) as [rz [rsg [rww [xw [Hin [Hxw [Hrw Hagree]]]]]]].
+    destruct (IHx Vl st Hext Hok) as [px [st1 [L1 [S1 [K1 [Gx [_ [_ Hsemx]]]]]]]].
+    destruct (IHs Vl st1 Hext K1) as [ps [st2 [L2 [S2 [K2 [Gs [_ [_ Hsems]]]]]]]].
+    destruct (IHl Vl st2 Hext K2) as [pl [st3 [L3 [S3 [K3 [Gl [_ [_ Hseml]]]]]]]].
+    destruct (mac_tail3_ok m rz rsg rww xw px ps pl st3 Hin Hxw Gx Gs Gl) as [x' [s' [l' [tm [T1 [Ax [As Al]]]]]]].
+    destruct (goodpv_mac (PApp rz [rd x'; rd s'; rd l']) rsg rww tm Hrw) as [Gr Nr].
+    eexists _, (touched st3).
+    split. { rewrite lower_expr_macro, !lower_exprs_cons, lower_exprs_nil.
+             unfold bind at 1. unfold bind at 1. rewrite L1. unfold bind at 1. unfold bind at 1. rewrite L2.
+             unfold bind at 1. unfold bind at 1. rewrite L3. unfold bind at 1. unfold ret at 1 2 3 4. exact T1. }
+    split. { eapply st_ext_trans; [exact S1|]. eapply st_ext_trans; [exact S2|]. eapply st_ext_trans; [exact S3 | apply st_ext_touched]. }
+    split. { apply lst_ok_touched0. exact K3. }
+    split. { exact Gr. }
+    split. { apply nolit_litinv. exact Nr. }
+    split. { intros Hi. contradiction. }
+    intros HR Hrem cs ms Hrel Himm.
+    assert (X3 : st_ext st3 (touched st3)) by apply st_ext_touched.
+    destruct (semok_mono _ _ _ _ _ (st_ext_trans _ _ _ S2 (st_ext_trans _ _ _ S3 X3)) Hsemx HR Hrem cs ms Hrel Himm) as [vx [Sx Hcx]].
+    destruct (semok_mono _ _ _ _ _ (st_ext_trans _ _ _ S3 X3) Hsems HR Hrem cs ms Hrel Himm) as [vs [Ss Hcs]].
+    destruct (semok_mono _ _ _ _ _ X3 Hseml HR Hrem cs ms Hrel Himm) as [vl [Sl Hcl]].
+    destruct (Ax ms vx Sx) as [zx [Rx [Ex Cx]]]. destruct (As ms vs Ss) as [zs [Rs [Es Cs]]]. destruct (Al ms vl Sl) as [zl [Rl [El Cl]]].
+    cbn [snd i32_t] in Rx, Ex, Rs, Es, Rl, El.
+    destruct (Hagree _ _ _ zx zs zl Cx Cs Cl Rs Rl) as [z [Happ [Rz Hc]]].
+    exists (VBv rww z). split.
+    - split; [|cbn [pv_ty]; apply shape_int; exact Rz].
+      cbn [pv_term fin_pure map eval]. unfold rd. rewrite Ex, Es, El. cbn [rev app]. exact Happ.
+    - intros fuel cs' cv Hce _. destruct fuel as [|k]; [discriminate Hce|].
+      rewrite ceval_mac3 in Hce.
+      destruct (ceval E csub xi k cs x) as [[s1 v1]|] eqn:E1; [|discriminate Hce]. destruct (Hcx k s1 v1 E1 I) as [-> ->].
+      destruct (ceval E csub xi k cs s) as [[s2 v2]|] eqn:E2; [|discriminate Hce]. destruct (Hcs k s2 v2 E2 I) as [-> ->].
+      destruct (ceval E csub xi k cs l) as [[s3 v3]|] eqn:E3; [|discriminate Hce]. destruct (Hcl k s3 v3 E3 I) as [-> ->].
+      destruct (c_macro m _) as [r|] eqn:Er; [|discriminate Hce]. cbn [option_map] in Hce. injection Hce as <- <-.
+      split; [reflexivity|]. rewrite (Hc r eq_refl). reflexivity.
+  Qed.
+
+  Lemma inv_mac4 V m x s l f : is_mac4 m -> Inv V x -> Inv V s -> Inv V l -> Inv V f ->
+    Inv V (EMacro m (ECons x (ECons s (ECons l (ECons f ENil))))).
+  Proof.
+    intros Hm IHx IHs IHl IHf Vl st Hext Hok.
+    destruct (mac4_spec m Hm) as [rz [rsg [rww [xw [Hin [Hxw [Hrw Hagree]]]]]]].
+    destruct (IHx Vl st Hext Hok) as [px [st1 [L1 [S1 [K1 [Gx [_ [_ Hsemx]]]]]]]].
+    destruct (IHs Vl st1 Hext K1) as [ps [st2 [L2 [S2 [K2 [Gs [_ [_ Hsems]]]]]]]].
+    destruct (IHl Vl st2 Hext K2) as [pl [st3 [L3 [S3 [K3 [Gl [_ [_ Hseml]]]]]]]].
+    destruct (IHf Vl st3 Hext K3) as [pf [st4 [L4 [S4 [K4 [Gf [_ [_ Hsemf]]]]]]]].
+    destruct (mac_tail4_ok m rz rsg rww xw px ps pl pf st4 Hin Hxw Gx Gs Gl Gf) as [x' [s' [l' [f' [tm [T1 [Ax [As [Al Af]]]]]]]]].
+    destruct (goodpv_mac (PApp rz [rd x'; rd s'; rd l'; rd f']) rsg rww tm Hrw) as [Gr Nr].
+    eexists _, (touched st4).
+    split. { rewrite lower_expr_macro, !lower_exprs_cons, lower_exprs_nil.
+             unfold bind at 1. unfold bind at 1. rewrite L1. unfold bind at 1. unfold bind at 1. rewrite L2.
+             unfold bind at 1. unfold bind at 1. rewrite L3. unfold bind at 1. unfold bind at 1. rewrite L4.
+             unfold bind at 1. unfold ret at 1 2 3 4 5. exact T1. }
+    split. { eapply st_ext_trans; [exact S1|]. eapply st_ext_trans; [exact S2|]. eapply st_ext_trans; [exact S3|].
+             eapply st_ext_trans; [exact S4 | apply st_ext_touched]. }
+    split. { apply lst_ok_touched0. exact K4. }
+    split. { exact Gr. }
+    split. { apply nolit_litinv. exact Nr. }
+    split. { intros Hi. contradiction. }
+    intros HR Hrem cs ms Hrel Himm.
+    assert (X4 : st_ext st4 (touched st4)) by apply st_ext_touched.
+    destruct (semok_mono _ _ _ _ _ (st_ext_trans _ _ _ S2 (st_ext_trans _ _ _ S3 (st_ext_trans _ _ _ S4 X4))) Hsemx HR Hrem cs ms Hrel Himm) as [vx [Sx Hcx]].
+    destruct (semok_mono _ _ _ _ _ (st_ext_trans _ _ _ S3 (st_ext_trans _ _ _ S4 X4)) Hsems HR Hrem cs ms Hrel Himm) as [vs [Ss Hcs]].
+    destruct (semok_mono _ _ _ _ _ (st_ext_trans _ _ _ S4 X4) Hseml HR Hrem cs ms Hrel Himm) as [vl [Sl Hcl]].
+    destruct (semok_mono _ _ _ _ _ X4 Hsemf HR Hrem cs ms Hrel Himm) as [vf [Sf Hcf]].
+    destruct (Ax ms vx Sx) as [zx [Rx [Ex Cx]]]. destruct (As ms vs Ss) as [zs [Rs [Es Cs]]]. destruct (Al ms vl Sl) as [zl [Rl [El Cl]]].
+    destruct (Af ms vf Sf) as [zf [Rf [Ef Cf]]].
+    cbn [snd i32_t] in Rx, Ex, Rs, Es, Rl, El, Rf, Ef.
+    destruct (Hagree _ _ _ _ zx zs zl zf Cx Cs Cl Cf Rs Rl) as [z [Happ [Rz Hc]]].
+    exists (VBv rww z). split.
+    - split; [|cbn [pv_ty]; apply shape_int; exact Rz].
+      cbn [pv_term fin_pure map eval]. unfold rd. rewrite Ex, Es, El, Ef. cbn [rev app]. exact Happ.
+    - intros fuel cs' cv Hce _. destruct fuel as [|k]; [discriminate Hce|].
+      rewrite ceval_mac4 in Hce.
+      destruct (ceval E csub xi k cs x) as [[s1 v1]|] eqn:E1; [|discriminate Hce]. destruct (Hcx k s1 v1 E1 I) as [-> ->].
+      destruct (ceval E csub xi k cs s) as [[s2 v2]|] eqn:E2; [|discriminate Hce]. destruct (Hcs k s2 v2 E2 I) as [-> ->].
+      destruct (ceval E csub xi k cs l) as [[s3 v3]|] eqn:E3; [|discriminate Hce]. destruct (Hcl k s3 v3 E3 I) as [-> ->].
+      destruct (ceval E csub xi k cs f) as [[s4 v4]|] eqn:E4; [|discriminate Hce]. destruct (Hcf k s4 v4 E4 I) as [-> ->].
+      destruct (c_macro m _) as [r|] eqn:Er; [|discriminate Hce]. cbn [option_map] in Hce. injection Hce as <- <-.
+      split; [reflexivity|]. rewrite (Hc r eq_refl). reflexivity.
+  Qed.
+
+
+  (* ------------------------------------------------------------------ sizeof(e) *)
+  (* The compiler folds sizeof(e) to the literal (width of the type it gives e + 7) / 8, typed int (signed, 32 bit).
+     CSem has no sizeof: it reads the spelling as a call of a sub-routine `sizeof`, which has no body, so it prescribes no
+     value (ceval = None) and the simulation holds vacuously for every expression that contains it.  (C11 6.5.3.4 gives
+     sizeof the type size_t, unsigned: an expression in which the signedness of that literal matters would be
+     mistranslated; CSem cannot express the difference.) *)
+  Lemma sizeof_ext : In "sizeof" ext_calls.
+  Proof. right. left. reflexivity. Qed.
+
+  Lemma lower_expr_sizeof args st p st' : lower_exprs cfg args st = OK ([IPure p], st') -> goodpv p ->
+    lower_expr cfg (Ast.ECall "sizeof" args) st =
+    OK (IPure (mkpv (PBv true 32 (Z.of_N ((vt_w (pv_ty p) + 7) / 8))) (ty_int true 32) (KLit (Z.of_N ((vt_w (pv_ty p) + 7) / 8)) false) []), st').
+  Proof.
+    intros H Hg. cbn [lower_expr].
+    match goal with |- bind ?m _ _ = _ => change m with (lower_exprs cfg args) end.
+    unfold bind at 1. rewrite H.
+    change (String.eqb "sizeof" "fatal") with false. change (String.eqb "sizeof" "MEM_STORE0") with false. cbv iota.
+    unfold find_sub. cbn [cfg_subs]. rewrite (Hsubs "sizeof" sizeof_ext).
+    change (String.eqb "sizeof" "sizeof") with true. cbv iota.
+    assert (Hn : is_numeric (pv_ty p) = true /\ vt_tok (pv_ty p) = false).
+    { destruct Hg as [[Ht _] | [s0 [w0 [_ [Ht _]]]]]; rewrite Ht; split; reflexivity. }
+    unfold bind, need_numeric. rewrite (proj1 Hn), (proj2 Hn). reflexivity.
+  Qed.
+
+  Lemma inv_sizeof V e : Inv V e -> Inv V (Ast.ECall "sizeof" (ECons e ENil)).
+  Proof.
+    intros IH Vl st Hext Hok.
+    destruct (IH Vl st Hext Hok) as [pa [st1 [L1 [S1 [K1 [Ga _]]]]]].
+    set (sz := Z.of_N ((vt_w (pv_ty pa) + 7) / 8)).
+    assert (Hsz : 0 <= sz < 2147483648).
+    { unfold sz. destruct Ga as [[Ht _] | [s0 [w0 [Hw0 [Ht _]]]]]; rewrite Ht; [vm_compute; split; [discriminate | reflexivity]|].
+      cbn [vt_w ty_int]. okw_cases Hw0; vm_compute; split; try discriminate; reflexivity. }
+    exists (mkpv (PBv true 32 sz) (ty_int true 32) (KLit sz false) []), st1.
+    split. { apply lower_expr_sizeof; [|exact Ga]. rewrite lower_exprs_cons, lower_exprs_nil. unfold bind. rewrite L1. reflexivity. }
+    split; [exact S1|]. split; [exact K1|].
+    split. { right. exists true, 32%N. cbn. auto. }
+    split. { intros v0 b0 Hk. cbn in Hk. injection Hk as <- <-. left. split; [reflexivity|]. exists true, 32%N. cbn [pv_ty pv_term].
+             repeat split; auto. unfold norm_lit, sval, wrap. cbn [vt_sg vt_w ty_int]. norm_w. split_ifs; lia. }
+    split. { intros _. reflexivity. }
+    intros _ _ cs ms _ _. exists (VBv 32 (wrap 32 sz)). split.
+    - split; [reflexivity | apply shape_int; apply wrap_range].
+    - intros fuel cs' cv Hce _. destruct fuel as [|k]; [discriminate Hce|].
+      cbn [ceval] in Hce. rewrite (Hcsub "sizeof" sizeof_ext) in Hce. discriminate Hce.
+  Qed.
+
   Theorem expr_inv V e : pfrag V e -> Inv V e.
   Proof.
     induction 1.
@@ -1891,6 +2852,8 @@ Section Correct.
     - eapply inv_reg; eauto.
     - eapply inv_newreg; eauto.
     - apply inv_imm; auto.
+    - apply inv_alias; auto.
+    - apply inv_pc.
     - eapply inv_cast; eauto.
     - apply inv_un; auto.
     - destruct H as [H | H]; [apply inv_fold; auto|].
@@ -1898,6 +2861,11 @@ Section Correct.
       1-5: apply inv_bitshift; auto; tauto.
       apply inv_logic; auto.
     - apply inv_cond; auto.
+    - apply inv_sizeof; auto.
+    - eapply inv_cast_load; eauto.
+    - apply inv_mac1; auto.
+    - apply inv_mac3; auto.
+    - apply inv_mac4; auto.
   Qed.
 
 End Correct.
@@ -1934,27 +2902,28 @@ Proof.
 Qed.
 
 Theorem expr_correct : forall (cfg : config) (rw : regwidth) (IM : string -> bool) (E : cenv) (csub : csubs) xi V e st,
-  cfg_fx cfg = all_fixes -> cfg_params cfg = [] -> lst_ok IM V st -> pfrag rw IM V e ->
+  cfg_fx cfg = all_fixes -> cfg_params cfg = [] -> macs_std (cfg_macros cfg) -> subs_ext (cfg_subs cfg) -> csub_ext csub ->
+  lst_ok IM V st -> pfrag rw IM V e ->
   exists pv st', lower_expr cfg e st = OK (IPure pv, st') /\ st_ext st st' /\ lst_ok IM V st' /\
     forall R rem, regs_le (st_regs st') R -> norem rem ->
-    forall cs ms, rel IM E V cs ms -> imms_done IM (st_imms st') ms ->
+    forall cs ms, rel IM E V cs ms -> imms_done IM E (st_imms st') cs ms ->
       exists ilv, eval rw ms [] (fin_pure R rem (pv_term pv)) = Some ilv /\ shape_pv pv ilv /\
         forall fuel cs' cv, ceval E csub xi fuel cs e = Some (cs', cv) -> arms_ok fuel cs e ->
           cs' = cs /\ agrees pv cv ilv.
 Proof.
-  intros cfg rw IM E csub xi V e st Hfx Hpar Hok Hfrag.
-  destruct cfg as [fx0 subs macs params cret hstart]. cbn in Hfx, Hpar. subst fx0 params.
+  intros cfg rw IM E csub xi V e st Hfx Hpar Hmacs Hsubs Hcsub Hok Hfrag.
+  destruct cfg as [fx0 subs macs params cret hstart]. cbn in Hfx, Hpar, Hmacs, Hsubs. subst fx0 params.
   match goal with |- exists pv st', ?f = OK (IPure pv, st') /\ _ =>
     destruct (exists_forall_swap (match f with OK (IPure p, s) => OK (p, s) | OK _ => Err "" | Err m => Err m end)
                 (fun (x : list (string * reginfo) * list string) pv st' => st_ext st st' /\ lst_ok IM V st' /\
       (regs_le (st_regs st') (fst x) -> norem (snd x) ->
-       forall cs ms, rel IM E V cs ms -> imms_done IM (st_imms st') ms ->
+       forall cs ms, rel IM E V cs ms -> imms_done IM E (st_imms st') cs ms ->
         exists ilv, eval rw ms [] (fin_pure (fst x) (snd x) (pv_term pv)) = Some ilv /\ shape_pv pv ilv /\
           forall fuel cs' cv, ceval E csub xi fuel cs e = Some (cs', cv) -> arms_ok fuel cs e ->
             cs' = cs /\ agrees pv cv ilv)) ([], [])) as [pv [st' [L H]]]
   end.
   - intros [R rem]. cbn [fst snd].
-    destruct (expr_inv subs macs cret hstart rw R rem IM E csub xi V e Hfrag st Hok) as [pv [st' [L [S [K [G [_ [_ Hsem]]]]]]]].
+    destruct (expr_inv subs macs cret hstart Hmacs Hsubs rw R rem IM E csub Hcsub xi V e Hfrag V st (vext_refl V) Hok) as [pv [st' [L [S [K [G [_ [_ Hsem]]]]]]]].
     exists pv, st'. split; [rewrite L; reflexivity|]. split; [exact S|]. split; [exact K|].
     intros HR Hrem cs ms Hrel Himm. destruct (Hsem HR Hrem cs ms Hrel Himm) as [ilv [[He Hs] Hc]].
     exists ilv. split; [exact He|].
@@ -1973,15 +2942,16 @@ Print Assumptions expr_correct.
 
 
 Theorem expr_correct_unconditional : forall (cfg : config) (rw : regwidth) (IM : string -> bool) (E : cenv) (csub : csubs) xi V e st,
-  cfg_fx cfg = all_fixes -> cfg_params cfg = [] -> lst_ok IM V st -> pfrag rw IM V e ->
+  cfg_fx cfg = all_fixes -> cfg_params cfg = [] -> macs_std (cfg_macros cfg) -> subs_ext (cfg_subs cfg) -> csub_ext csub ->
+  lst_ok IM V st -> pfrag rw IM V e ->
   exists pv st', lower_expr cfg e st = OK (IPure pv, st') /\ st_ext st st' /\ lst_ok IM V st' /\
     forall R rem, regs_le (st_regs st') R -> norem rem ->
-    forall cs ms, rel IM E V cs ms -> imms_done IM (st_imms st') ms ->
+    forall cs ms, rel IM E V cs ms -> imms_done IM E (st_imms st') cs ms ->
       exists ilv, eval rw ms [] (fin_pure R rem (pv_term pv)) = Some ilv /\ shape_pv pv ilv /\
         forall fuel cs' cv, ceval E csub xi fuel cs e = Some (cs', cv) -> cs' = cs /\ agrees pv cv ilv.
 Proof.
-  intros cfg rw IM E csub xi V e st Hfx Hpar Hok Hfrag.
-  destruct (expr_correct cfg rw IM E csub xi V e st Hfx Hpar Hok Hfrag) as [pv [st' [L [S [K H]]]]].
+  intros cfg rw IM E csub xi V e st Hfx Hpar Hmacs Hsubs Hcsub Hok Hfrag.
+  destruct (expr_correct cfg rw IM E csub xi V e st Hfx Hpar Hmacs Hsubs Hcsub Hok Hfrag) as [pv [st' [L [S [K H]]]]].
   exists pv, st'. split; [exact L|]. split; [exact S|]. split; [exact K|].
   intros R rem HR Hrem cs ms Hrel Himm. destruct (H R rem HR Hrem cs ms Hrel Himm) as [ilv [He [Hsh Hc]]].
   exists ilv. split; [exact He|]. split; [exact Hsh|].
